@@ -1,4 +1,5 @@
 import Firefly.Proof.AmlPasses
+import Firefly.Model.AmlShapes
 /-!
 `mergeScopeDirectives`: never a panic, the pool stays well-formed.  The pass frees objects while the walk holds
 saved sibling indices, and its `append` has no dynamic guard: the contract "the target is not inside the moved
@@ -299,5 +300,1929 @@ theorem find_avoid {t : ObjectTree} (w : WF t) (hroot : live t 0 = true) {S : Na
               have hb0 := he hlen4 b (by simp)
               exact findUpward_avoid w hS (b :: rest) (by simp) hb0 _ scope r (Or.inr ⟨hl, hc⟩) h hr
             · rw [if_neg hlen4] at h; cases h; exact absurd rfl hr
+
+/-! ## `free` as a step -/
+
+/-- `free(y)` of a live childless object other than the root -/
+theorem free_step {s : PState} (h : TP s) {y : Nat} (hl : live s.tree y = true) (hfi : Fi s.tree y = INV)
+    (hla : La s.tree y = INV) (hy0 : y ≠ 0) :
+    ∃ s1, tree (·.free y) s = .ok ((), s1) ∧ TP s1 ∧ s1 = { s with tree := s1.tree } ∧
+      s1.tree.pool.size = s.tree.pool.size ∧
+      (∀ x, live s1.tree x = (live s.tree x && decide (x ≠ y))) ∧
+      (∀ x, x ≠ y → Pay (slot s1.tree x) = Pay (slot s.tree x)) ∧
+      (∀ x, x ≠ y → C13.P s1.tree x = C13.P s.tree x) ∧
+      (∀ x, x ≠ y → Nx s1.tree x = if x = Pv s.tree y ∧ Pv s.tree y ≠ INV then Nx s.tree y else Nx s.tree x) ∧
+      (∀ x, x ≠ y → live s.tree x = true →
+        Fi s1.tree x = (if x = C13.P s.tree y ∧ Fi s.tree x = y then Nx s.tree y else Fi s.tree x) ∧
+        La s1.tree x = (if x = C13.P s.tree y ∧ La s.tree x = y then Pv s.tree y else La s.tree x)) := by
+  have hpre : freePre s.tree y = true := by
+    simp only [freePre, Bool.and_eq_true, decide_eq_true_eq]
+    exact ⟨⟨hl, hfi⟩, hla⟩
+  obtain ⟨t', e, w', hsz, hlive, _, _, t1, ht1, hsame⟩ := free_wf h.wf hpre
+  have hroot : live t' 0 = true := by
+    rw [hlive]; simp [h.root, Ne.symm hy0]
+  rcases ht1 with ⟨hp, rfl⟩ | ⟨hp, hd⟩
+  · -- a root of the forest: nothing to detach
+    refine ⟨_, tree_ex e, ⟨w', hroot, ?_⟩, rfl, hsz, hlive, fun x hx => by rw [hsame x hx],
+      fun x hx => by unfold C13.P; rw [hsame x hx], ?_, ?_⟩
+    · intro x hx
+      have hx' : live s.tree x = true ∧ x ≠ y := by
+        have := hlive x; rw [hx] at this
+        simp only [Bool.true_eq, Bool.and_eq_true, decide_eq_true_eq] at this; exact this
+      show InfoOK (slot t' x).infoIndex
+      rw [hsame x hx'.2]; exact h.info x hx'.1
+    · intro x hx
+      have hpv : Pv s.tree y = INV := ((h.wf.lP hl).det hp).1
+      rw [if_neg (fun hc => hc.2 hpv)]
+      unfold Nx; rw [hsame x hx]
+    · intro x hx hxl
+      have hne : x ≠ C13.P s.tree y := by rw [hp]; exact live_ne_INV h.wf.size_le hxl
+      rw [if_neg (fun hc => hne hc.1), if_neg (fun hc => hne hc.1)]
+      unfold Fi La; rw [hsame x hx]; exact ⟨rfl, rfl⟩
+  · have hpl : live s.tree (C13.P s.tree y) = true := by
+      rcases (h.wf.lP hl).lp with h1 | h1
+      · exact absurd h1 hp
+      · exact h1
+    have hdp : detachPre s.tree (C13.P s.tree y) y = true := by simp [detachPre, hpl, hl]
+    obtain ⟨t2, he2, _, _, _, _, hP2, _, hNx2, hFi2, hLa2⟩ := detach_wf h.wf hdp
+    have : t2 = t1 := by rw [he2] at hd; exact Except.ok.inj hd
+    subst this
+    have sp := detach_samePay he2
+    refine ⟨_, tree_ex e, ⟨w', hroot, ?_⟩, rfl, hsz, hlive, fun x hx => by rw [hsame x hx]; exact sp.pay x, ?_, ?_, ?_⟩
+    · intro x hx
+      have hx' : live s.tree x = true ∧ x ≠ y := by
+        have := hlive x; rw [hx] at this
+        simp only [Bool.true_eq, Bool.and_eq_true, decide_eq_true_eq] at this; exact this
+      show InfoOK (slot t' x).infoIndex
+      rw [hsame x hx'.2]
+      have hi : (slot t2 x).infoIndex = (slot s.tree x).infoIndex := congrArg (fun p => p.2.1) (sp.pay x)
+      rw [hi]; exact h.info x hx'.1
+    · intro x hx
+      show C13.P t' x = _
+      unfold C13.P; rw [hsame x hx]
+      have := hP2 x; unfold C13.P at this; rw [this, if_neg hx]
+    · intro x hx
+      show Nx t' x = _
+      unfold Nx; rw [hsame x hx]
+      have := hNx2 x; unfold Nx at this; rw [this, if_neg hx]
+    · intro x hx _
+      constructor
+      · show Fi t' x = _
+        unfold Fi; rw [hsame x hx]
+        have := hFi2 x; unfold Fi at this; rw [this]
+        by_cases hxp : x = C13.P s.tree y
+        · subst hxp; rfl
+        · rw [if_neg (fun hc => hxp hc.1), if_neg (fun hc => hxp hc.1)]
+      · show La t' x = _
+        unfold La; rw [hsame x hx]
+        have := hLa2 x; unfold La at this; rw [this]
+        by_cases hxp : x = C13.P s.tree y
+        · subst hxp; rfl
+        · rw [if_neg (fun hc => hxp hc.1), if_neg (fun hc => hxp hc.1)]
+
+/-! ## the ghost context of the walk: what was freed and moved so far lies inside the visited subtree -/
+
+/-- nothing was created -/
+structure Shr (s s' : PState) : Prop where
+  size : s'.tree.pool.size = s.tree.pool.size
+  live : ∀ x, live s'.tree x = true → live s.tree x = true
+  handle : s'.tableHandle = s.tableHandle
+
+theorem Shr.refl (s : PState) : Shr s s := ⟨rfl, fun _ h => h, rfl⟩
+theorem Shr.trans {a b c : PState} (h1 : Shr a b) (h2 : Shr b c) : Shr a c :=
+  ⟨by rw [h2.size, h1.size], fun x hx => h1.live x (h2.live x hx), by rw [h2.handle, h1.handle]⟩
+theorem Shr.ofMv {s s' : PState} (m : Mv s s') : Shr s s' := ⟨m.size, fun x hx => by rw [← m.live]; exact hx, m.handle⟩
+
+/-- relative to the state `s0` in which the visit of `X0` began, with `Mvd` the set of objects moved since:
+everything freed and everything moved was inside the subtree of `X0`, and behind a moved object in a sibling
+list there are only moved objects -/
+structure Ctx (s0 : PState) (X0 : Nat) (Mvd : Nat → Prop) (s : PState) : Prop where
+  shr : Shr s0 s
+  freed : ∀ y, live s0.tree y = true → live s.tree y = false → anc s0.tree X0 y
+  moved : ∀ y, live s.tree y = true → C13.P s.tree y ≠ C13.P s0.tree y → Mvd y
+  inside : ∀ y, Mvd y → anc s0.tree X0 y
+  nx : ∀ y, live s.tree y = true → Mvd y → Nx s.tree y = INV ∨ Mvd (Nx s.tree y)
+
+theorem Ctx.refl (s : PState) (X0 : Nat) : Ctx s X0 (fun _ => False) s :=
+  ⟨Shr.refl s, fun y h1 h2 => (by rw [h1] at h2; cases h2), fun y _ h => absurd rfl h, fun _ h => False.elim h,
+   fun _ _ h => False.elim h⟩
+
+/-- a payload-free change of the parser state (counters) keeps the context -/
+theorem Ctx.ofTree {s0 s s' : PState} {X0 : Nat} {Mvd : Nat → Prop} (c : Ctx s0 X0 Mvd s) (ht : s'.tree = s.tree)
+    (hh : s'.tableHandle = s.tableHandle) : Ctx s0 X0 Mvd s' :=
+  ⟨⟨by rw [ht]; exact c.shr.size, fun x hx => c.shr.live x (by rw [← ht]; exact hx), by rw [hh]; exact c.shr.handle⟩,
+   fun y h1 h2 => c.freed y h1 (by rw [← ht]; exact h2), fun y h1 h2 => c.moved y (by rw [← ht]; exact h1) (by rw [← ht]; exact h2),
+   c.inside, fun y h1 h2 => by rw [ht]; exact c.nx y (by rw [← ht]; exact h1) h2⟩
+
+/-- moving `m` (inside `X0`) keeps the context, with `m` added to the moved set -/
+theorem Ctx.move {s0 s s2 : PState} {X0 : Nat} {Mvd : Nat → Prop} (c : Ctx s0 X0 Mvd s) (w : WF s.tree) (m2 : Mv s s2)
+    {m T : Nat} (hm : live s.tree m = true) (hin : anc s0.tree X0 m)
+    (hP : ∀ x, C13.P s2.tree x = if x = m then T else C13.P s.tree x)
+    (hNx : ∀ x, Nx s2.tree x = if x = m then INV else if x = La s.tree T ∧ La s.tree T ≠ INV then m
+      else if x = Pv s.tree m ∧ Pv s.tree m ≠ INV then Nx s.tree m else Nx s.tree x) :
+    Ctx s0 X0 (fun y => Mvd y ∨ y = m) s2 := by
+  refine ⟨c.shr.trans (Shr.ofMv m2), ?_, ?_, ?_, ?_⟩
+  · intro y h1 h2
+    exact c.freed y h1 (by rw [← m2.live]; exact h2)
+  · intro y h1 h2
+    by_cases hy : y = m
+    · exact Or.inr hy
+    · left
+      rw [hP, if_neg hy] at h2
+      exact c.moved y (by rw [← m2.live]; exact h1) h2
+  · intro y hy
+    rcases hy with hy | hy
+    · exact c.inside y hy
+    · rw [hy]; exact hin
+  · intro y h1 hy
+    have h1' : live s.tree y = true := by rw [← m2.live]; exact h1
+    rw [hNx]
+    by_cases hym : y = m
+    · rw [if_pos hym]; exact Or.inl rfl
+    · rw [if_neg hym]
+      have hyM : Mvd y := by
+        rcases hy with hy | hy
+        · exact hy
+        · exact absurd hy hym
+      by_cases hla : y = La s.tree T ∧ La s.tree T ≠ INV
+      · rw [if_pos hla]; exact Or.inr (Or.inr rfl)
+      · rw [if_neg hla]
+        by_cases hpv : y = Pv s.tree m ∧ Pv s.tree m ≠ INV
+        · rw [if_pos hpv]
+          -- `y` is the moved predecessor of `m`, so `m` was moved before, and so was what follows it
+          have hnxy : Nx s.tree y = m := by
+            have := ((w.lP hm).pv hpv.2).1
+            rw [← hpv.1] at this; exact this
+          have hmM : Mvd m := by
+            rcases c.nx y h1' hyM with h0 | h0
+            · rw [hnxy] at h0; exact absurd h0 (live_ne_INV w.size_le hm)
+            · rw [hnxy] at h0; exact h0
+          rcases c.nx m hm hmM with h0 | h0
+          · exact Or.inl h0
+          · exact Or.inr (Or.inl h0)
+        · rw [if_neg hpv]
+          rcases c.nx y h1' hyM with h0 | h0
+          · exact Or.inl h0
+          · exact Or.inr (Or.inl h0)
+
+/-- freeing `y` (inside `X0`) keeps the context -/
+theorem Ctx.free {s0 s s1 : PState} {X0 : Nat} {Mvd : Nat → Prop} (c : Ctx s0 X0 Mvd s) (w : WF s.tree)
+    {y : Nat} (hy : live s.tree y = true) (hin : anc s0.tree X0 y)
+    (hsz : s1.tree.pool.size = s.tree.pool.size) (hh : s1.tableHandle = s.tableHandle)
+    (hlive : ∀ x, live s1.tree x = (live s.tree x && decide (x ≠ y)))
+    (hP : ∀ x, x ≠ y → C13.P s1.tree x = C13.P s.tree x)
+    (hNx : ∀ x, x ≠ y → Nx s1.tree x = if x = Pv s.tree y ∧ Pv s.tree y ≠ INV then Nx s.tree y else Nx s.tree x) :
+    Ctx s0 X0 Mvd s1 := by
+  have hl1 : ∀ x, live s1.tree x = true → live s.tree x = true ∧ x ≠ y := by
+    intro x hx
+    have := hlive x; rw [hx] at this
+    simp only [Bool.true_eq, Bool.and_eq_true, decide_eq_true_eq] at this; exact this
+  refine ⟨⟨by rw [hsz]; exact c.shr.size, fun x hx => c.shr.live x (hl1 x hx).1, by rw [hh]; exact c.shr.handle⟩, ?_, ?_, c.inside, ?_⟩
+  · intro z h1 h2
+    by_cases hz : live s.tree z = true
+    · have hzy : z = y := by
+        by_cases hzy : z = y
+        · exact hzy
+        · exfalso
+          have := hlive z; rw [h2, hz] at this
+          simp [hzy] at this
+      rw [hzy]; exact hin
+    · exact c.freed z h1 (by cases hq : live s.tree z with | false => rfl | true => exact absurd hq hz)
+  · intro z h1 h2
+    obtain ⟨hz, hzy⟩ := hl1 z h1
+    rw [hP z hzy] at h2
+    exact c.moved z hz h2
+  · intro z h1 hzM
+    obtain ⟨hz, hzy⟩ := hl1 z h1
+    rw [hNx z hzy]
+    by_cases hpv : z = Pv s.tree y ∧ Pv s.tree y ≠ INV
+    · rw [if_pos hpv]
+      have hnxz : Nx s.tree z = y := by
+        have := ((w.lP hy).pv hpv.2).1
+        rw [← hpv.1] at this; exact this
+      have hyM : Mvd y := by
+        rcases c.nx z hz hzM with h0 | h0
+        · rw [hnxz] at h0; exact absurd h0 (live_ne_INV w.size_le hy)
+        · rw [hnxz] at h0; exact h0
+      exact c.nx y hy hyM
+    · rw [if_neg hpv]
+      exact c.nx z hz hzM
+
+/-! ## more about ancestors -/
+
+/-- the Boolean walk only answers "yes" for ancestors -/
+theorem isAnc_anc {t : ObjectTree} (w : WF t) (a : Nat) : ∀ (f x : Nat), live t x = true →
+    C13.isAncestorOrSelf t a f x = true → anc t a x := by
+  intro f
+  induction f with
+  | zero => intro x _ h; simp [C13.isAncestorOrSelf] at h
+  | succ f ih =>
+    intro x hx h
+    simp only [C13.isAncestorOrSelf, Bool.or_eq_true, decide_eq_true_eq, Bool.and_eq_true, ne_eq, decide_not,
+      Bool.not_eq_true', decide_eq_false_iff_not] at h
+    rcases h with h | ⟨hp, h⟩
+    · rw [← h]; exact w.anc_self hx
+    · have hpl : live t (C13.P t x) = true := by
+        rcases (w.lP hx).lp with h0 | h0
+        · exact absurd h0 hp
+        · exact h0
+      by_cases hxa : x = a
+      · rw [← hxa]; exact w.anc_self hx
+      · rw [w.anc_step hx hxa]; exact ih _ hpl h
+
+/-- "not an ancestor" for the contract of `append` -/
+theorem isAnc_false_of_not_anc {t : ObjectTree} (w : WF t) {a x : Nat} (hx : live t x = true) (h : ¬ anc t a x) (f : Nat) :
+    C13.isAncestorOrSelf t a f x = false := by
+  cases hq : C13.isAncestorOrSelf t a f x with
+  | false => rfl
+  | true => exact absurd (isAnc_anc w a f x hx hq) h
+
+/-- the parent of an ancestor-or-self of `y` (if it has one) is an ancestor of `y` -/
+theorem anc_parent {t : ObjectTree} {m y : Nat} (h : anc t m y) (hp : C13.P t m ≠ INV) : anc t (C13.P t m) y := by
+  obtain ⟨l, hc, hm⟩ := h
+  refine ⟨l, hc, ?_⟩
+  induction l generalizing y with
+  | nil => cases hm
+  | cons z zs ih =>
+    obtain ⟨rfl, hz, hc'⟩ := hc
+    rcases List.mem_cons.1 hm with e | e
+    · subst e
+      cases zs with
+      | nil => exact absurd hc' hp
+      | cons u us =>
+        obtain ⟨hu, _, _⟩ := id hc'
+        rw [hu]; exact List.mem_cons_of_mem _ (List.mem_cons_self ..)
+    · exact List.mem_cons_of_mem _ (ih hc' e)
+
+/-- a node is not an ancestor of its parent -/
+theorem not_anc_own_parent {t : ObjectTree} (w : WF t) {x : Nat} (hx : live t x = true) (hp : C13.P t x ≠ INV) :
+    ¬ anc t x (C13.P t x) := by
+  have hpl : live t (C13.P t x) = true := by
+    rcases (w.lP hx).lp with h0 | h0
+    · exact absurd h0 hp
+    · exact h0
+  intro ha
+  obtain ⟨l, hc, hm⟩ := ha
+  obtain ⟨l', hc', hlen⟩ := w.parChain (C13.P t x) (Or.inr hpl)
+  have := chain_det (C13.P t) w.size_le _ _ _ hc hc'
+  subst this
+  have h1 := isAnc_of_chain w.size_le x l t.fuel _ hc (by simp [ObjectTree.fuel]; omega) hm
+  exact anc_parent_absurd w hx rfl hpl h1
+
+/-- `detach(p, m)`; `append(T, m)` with everything the merge needs to know about the links afterwards -/
+theorem move_full {s : PState} (h : TP s) {p T m : Nat} (hT : live s.tree T = true) (hm : live s.tree m = true)
+    (hp : C13.P s.tree m = p) (hpl : live s.tree p = true) (hTp : T ≠ p)
+    (hanc : C13.isAncestorOrSelf s.tree m s.tree.fuel T = false) :
+    ∃ s1 s2, tree (·.detach p m) s = .ok ((), s1) ∧ tree (·.append T m) s1 = .ok ((), s2) ∧ TP s2 ∧ Mv s s2 ∧
+      s2 = { s with tree := s2.tree } ∧ SamePay s.tree s2.tree ∧
+      (∀ x, C13.P s2.tree x = if x = m then T else C13.P s.tree x) ∧
+      (∀ x, Nx s2.tree x = if x = m then INV else if x = La s.tree T ∧ La s.tree T ≠ INV then m
+        else if x = Pv s.tree m ∧ Pv s.tree m ≠ INV then Nx s.tree m else Nx s.tree x) ∧
+      (∀ x, x ≠ p → x ≠ T → Fi s2.tree x = Fi s.tree x ∧ La s2.tree x = La s.tree x) ∧
+      Fi s2.tree p = (if Fi s.tree p = m then Nx s.tree m else Fi s.tree p) := by
+  have hpre : detachPre s.tree p m = true := by
+    simp only [detachPre, Bool.and_eq_true, decide_eq_true_eq]; exact ⟨⟨hpl, hm⟩, hp⟩
+  obtain ⟨t1, e1, w1, hsz1, hl1, _, hP1, _, hNx1, hFi1, hLa1⟩ := detach_wf h.wf hpre
+  have sp1 := detach_samePay e1
+  have h1 : TP { s with tree := t1 } := h.ofTree w1 hl1 sp1
+  have hla : La t1 T = La s.tree T := by rw [hLa1, if_neg (fun hc => hTp hc.1)]
+  have hpre2 : appendPre t1 T m = true := by
+    simp only [appendPre, Bool.and_eq_true, decide_eq_true_eq, Bool.not_eq_true']
+    refine ⟨⟨⟨by rw [hl1]; exact hT, by rw [hl1]; exact hm⟩, by rw [hP1, if_pos rfl]⟩, ?_⟩
+    have hf : t1.fuel = s.tree.fuel := by unfold ObjectTree.fuel; rw [hsz1]
+    rw [hf, isAnc_congr (t := s.tree) (t' := t1) m (fun x hx => by rw [hP1, if_neg hx])]
+    exact hanc
+  obtain ⟨t2, e2, w2, hsz2, hl2, _, hP2, _, hNx2, hFi2, hLa2⟩ := append_wf w1 hpre2
+  have sp2 := append_samePay e2
+  have h2 : TP { s with tree := t2 } := by
+    have := h1.ofTree (s := { s with tree := t1 }) w2 hl2 sp2
+    exact this
+  refine ⟨{ s with tree := t1 }, { s with tree := t2 }, tree_ex e1, tree_ex e2, h2,
+    ⟨by show t2.pool.size = _; rw [hsz2, hsz1], fun x => by show live t2 x = _; rw [hl2, hl1], rfl⟩, rfl, sp1.trans sp2, ?_, ?_, ?_, ?_⟩
+  · intro x
+    show C13.P t2 x = _
+    rw [hP2]
+    split
+    · rfl
+    · rename_i hx; rw [hP1, if_neg hx]
+  · intro x
+    show Nx t2 x = _
+    rw [hNx2, hla]
+    split
+    · rfl
+    · split
+      · rfl
+      · rename_i hx _; rw [hNx1, if_neg hx]
+  · intro x hxp hxT
+    constructor
+    · show Fi t2 x = _
+      rw [hFi2, if_neg (fun hc => hxT hc.1), hFi1, if_neg (fun hc => hxp hc.1)]
+    · show La t2 x = _
+      rw [hLa2, if_neg hxT, hLa1, if_neg (fun hc => hxp hc.1)]
+  · show Fi t2 p = _
+    rw [hFi2, if_neg (fun hc => hTp hc.1.symm), hFi1]
+    by_cases hq : Fi s.tree p = m
+    · rw [if_pos ⟨rfl, hq⟩, if_pos hq]
+    · rw [if_neg (fun hc => hq hc.2), if_neg hq]
+
+/-! ## the invariant of the merge pass -/
+
+/-- a one-segment path must not start with a zero byte (it is a name: `parseNameString` accepted it) -/
+def ExprOK (e : List UInt8) : Prop := e.length = 4 → ∀ b, e[0]? = some b → b ≠ 0
+
+/-- the shape of a `Scope` directive `x` the first pass leaves: unnamed, exactly two arguments — a childless
+name-path object holding the `[]byte` of the path, and a scope block -/
+structure ShapeAt (d : Bytes) (t : ObjectTree) (x : Nat) : Prop where
+  name0 : (slot t x).name.b0 = 0
+  info : (slot t x).infoIndex = pOpcodeTableIndex opScope true
+  nkids : Fi t (Fi t x) = INV
+  two : Nx t (Fi t x) = La t x
+  cop : (slot t (La t x)).opcode = opIntScopeBlock
+  nop : (slot t (Fi t x)).opcode ≠ opIntScopeBlock
+  val : ∃ off len, (slot t (Fi t x)).value = .bytes off len ∧ ExprOK (sliceBytes d off len)
+
+/-- `x` is a `Scope` directive of the table being parsed that still has arguments -/
+def IsDir (s : PState) (x : Nat) : Prop :=
+  live s.tree x = true ∧ (slot s.tree x).opcode = opScope ∧ (slot s.tree x).tableHandle = s.tableHandle ∧ Fi s.tree x ≠ INV
+
+/-- invariant of `mergeScopeDirectives` -/
+structure MI (d : Bytes) (s : PState) : Prop where
+  tp : TP s
+  rootP : C13.P s.tree 0 = INV
+  rootOp : (slot s.tree 0).opcode = opIntScopeBlock
+  shape : ∀ x, IsDir s x → ShapeAt d s.tree x
+
+theorem pay_opcode {o o' : Obj} (h : Pay o' = Pay o) : o'.opcode = o.opcode := congrArg (fun p => p.1) h
+theorem pay_info {o o' : Obj} (h : Pay o' = Pay o) : o'.infoIndex = o.infoIndex := congrArg (fun p => p.2.1) h
+theorem pay_handle {o o' : Obj} (h : Pay o' = Pay o) : o'.tableHandle = o.tableHandle := congrArg (fun p => p.2.2.1) h
+theorem pay_name {o o' : Obj} (h : Pay o' = Pay o) : o'.name = o.name := congrArg (fun p => p.2.2.2.1) h
+theorem pay_value {o o' : Obj} (h : Pay o' = Pay o) : o'.value = o.value := congrArg (fun p => p.2.2.2.2.2.2.2) h
+
+/-- the shape only depends on a few fields of `x`, of its first and of its last argument -/
+theorem ShapeAt.transfer {d : Bytes} {t t' : ObjectTree} {x : Nat} (h : ShapeAt d t x)
+    (hx : Pay (slot t' x) = Pay (slot t x)) (hfi : Fi t' x = Fi t x) (hla : La t' x = La t x)
+    (hn : Pay (slot t' (Fi t x)) = Pay (slot t (Fi t x))) (hnf : Fi t' (Fi t x) = Fi t (Fi t x))
+    (hnn : Nx t' (Fi t x) = Nx t (Fi t x)) (hc : Pay (slot t' (La t x)) = Pay (slot t (La t x))) : ShapeAt d t' x := by
+  refine ⟨by rw [pay_name hx]; exact h.name0, by rw [pay_info hx]; exact h.info, by rw [hfi, hnf]; exact h.nkids, by rw [hfi, hla, hnn]; exact h.two,
+    by rw [hla, pay_opcode hc]; exact h.cop, by rw [hfi, pay_opcode hn]; exact h.nop, ?_⟩
+  obtain ⟨off, len, hv, he⟩ := h.val
+  exact ⟨off, len, by rw [hfi, pay_value hn]; exact hv, he⟩
+
+/-- an object with a parent inside `X0` (in `s0`, and unmoved) or moved is inside `X0` -/
+theorem Ctx.inside_child {s0 s : PState} {X0 : Nat} {Mvd : Nat → Prop} (c : Ctx s0 X0 Mvd s) (w0 : WF s0.tree)
+    {y q : Nat} (hy : live s.tree y = true) (hp : C13.P s.tree y = q) (hq : anc s0.tree X0 q) : anc s0.tree X0 y := by
+  by_cases hM : Mvd y
+  · exact c.inside y hM
+  · have hp0 : C13.P s0.tree y = q := by
+      by_cases hne : C13.P s.tree y = C13.P s0.tree y
+      · rw [← hne]; exact hp
+      · exact absurd (c.moved y hy hne) hM
+    have hy0 := c.shr.live y hy
+    by_cases hyx : y = X0
+    · rw [hyx]; exact w0.anc_self (by rw [← hyx]; exact hy0)
+    · rw [w0.anc_step hy0 hyx, hp0]; exact hq
+
+/-- `scopeBlockOf`: the scope block of the lookup result — the object itself or one of its arguments -/
+theorem findScopeBlock_np' {s : PState} (h : TP s) (par : Nat) : ∀ (f i : Nat),
+    (i = INV ∨ (live s.tree i = true ∧ C13.P s.tree i = par)) →
+    NPs (findScopeBlock f i) s (fun r s' => s' = s ∧ ∀ x, r = some x → live s.tree x = true ∧
+      (slot s.tree x).opcode = opIntScopeBlock ∧ C13.P s.tree x = par) := by
+  intro f
+  induction f with
+  | zero => intro i _; unfold findScopeBlock; exact NPs.fuel
+  | succ f ih =>
+    intro i hi
+    unfold findScopeBlock
+    by_cases h0 : i = invalidIndex
+    · rw [if_pos h0]; exact NPs.pure ⟨rfl, fun x hx => by cases hx⟩
+    · rw [if_neg h0]
+      obtain ⟨hl, hp⟩ : live s.tree i = true ∧ C13.P s.tree i = par := by
+        rcases hi with h1 | h1
+        · exact absurd h1 h0
+        · exact h1
+      refine NPs.step (objectAt_live' hl) ?_
+      refine NPs.step (derefP_some_ex _) ?_
+      refine NPs.step (getObj_live hl) ?_
+      split
+      · rename_i hop
+        exact NPs.pure ⟨rfl, fun x hx => by cases hx; exact ⟨hl, hop, hp⟩⟩
+      · refine ih _ ?_
+        have l := h.wf.lP hl
+        show Nx s.tree i = INV ∨ (live s.tree (Nx s.tree i) = true ∧ C13.P s.tree (Nx s.tree i) = par)
+        by_cases hn : Nx s.tree i = INV
+        · exact Or.inl hn
+        · right
+          refine ⟨?_, by rw [(l.nx hn).2]; exact hp⟩
+          rcases l.lnx with h1 | h1
+          · exact absurd h1 hn
+          · exact h1
+
+theorem scopeBlockOf_np' {s : PState} (h : TP s) (fuel : Nat) {t0 : Nat} (ht : live s.tree t0 = true) :
+    NPs (scopeBlockOf fuel t0) s (fun r s' => s' = s ∧ ∀ x, r = some x → live s.tree x = true ∧
+      (slot s.tree x).opcode = opIntScopeBlock ∧ (x = t0 ∨ C13.P s.tree x = t0)) := by
+  unfold scopeBlockOf
+  refine NPs.step (getObj_live ht) ?_
+  split
+  · have l := h.wf.lP ht
+    have hfi : Fi s.tree t0 = INV ∨ (live s.tree (Fi s.tree t0) = true ∧ C13.P s.tree (Fi s.tree t0) = t0) := by
+      by_cases hf : Fi s.tree t0 = INV
+      · exact Or.inl hf
+      · right
+        refine ⟨?_, (l.fi hf).1⟩
+        rcases l.lfi with h1 | h1
+        · exact absurd h1 hf
+        · exact h1
+    exact (findScopeBlock_np' h t0 fuel _ hfi).mono (fun r s' hq => ⟨hq.1, fun x hx => ⟨(hq.2 x hx).1, (hq.2 x hx).2.1, Or.inr (hq.2 x hx).2.2⟩⟩)
+  · rename_i hop
+    have hop' : (slot s.tree t0).opcode = opIntScopeBlock := by
+      by_cases hq : (slot s.tree t0).opcode = opIntScopeBlock
+      · exact hq
+      · exact absurd hq hop
+    exact NPs.pure ⟨rfl, fun x hx => by cases hx; exact ⟨ht, hop', Or.inl rfl⟩⟩
+
+theorem scope_ne_block : opScope ≠ opIntScopeBlock := by decide
+
+/-- moving a child of one scope block to another scope block keeps the merge invariant -/
+theorem MI.move {d : Bytes} {s s2 : PState} (h : MI d s) (h2 : TP s2) (m2 : Mv s s2) (sp : SamePay s.tree s2.tree)
+    {c T m : Nat} (hc : live s.tree c = true) (hcop : (slot s.tree c).opcode = opIntScopeBlock)
+    (hT : live s.tree T = true) (hTop : (slot s.tree T).opcode = opIntScopeBlock)
+    (hm : live s.tree m = true) (hpm : C13.P s.tree m = c)
+    (hP : ∀ x, C13.P s2.tree x = if x = m then T else C13.P s.tree x)
+    (hNx : ∀ x, Nx s2.tree x = if x = m then INV else if x = La s.tree T ∧ La s.tree T ≠ INV then m
+      else if x = Pv s.tree m ∧ Pv s.tree m ≠ INV then Nx s.tree m else Nx s.tree x)
+    (hFL : ∀ x, x ≠ c → x ≠ T → Fi s2.tree x = Fi s.tree x ∧ La s2.tree x = La s.tree x) : MI d s2 := by
+  have w := h.tp.wf
+  have hinv : ∀ j, live s.tree j = true → j ≠ INV := fun j hj => live_ne_INV w.size_le hj
+  refine ⟨h2, ?_, by rw [pay_opcode (sp.pay 0)]; exact h.rootOp, ?_⟩
+  · rw [hP, if_neg]
+    · exact h.rootP
+    · intro e
+      rw [← e, h.rootP] at hpm
+      exact hinv c hc hpm.symm
+  · intro x hx
+    obtain ⟨hxl, hxop, hxh, hxf⟩ := hx
+    have hxl' : live s.tree x = true := by rw [← m2.live]; exact hxl
+    have hxop' : (slot s.tree x).opcode = opScope := by rw [← pay_opcode (sp.pay x)]; exact hxop
+    have hxc : x ≠ c := fun e => scope_ne_block (by rw [← hxop', e, hcop])
+    have hxT : x ≠ T := fun e => scope_ne_block (by rw [← hxop', e, hTop])
+    obtain ⟨hfx, hlx⟩ := hFL x hxc hxT
+    have hdir : IsDir s x := ⟨hxl', hxop', by rw [← pay_handle (sp.pay x), hxh, m2.handle], by rw [← hfx]; exact hxf⟩
+    have sh := h.shape x hdir
+    have lx := w.lP hxl'
+    have hnp : C13.P s.tree (Fi s.tree x) = x := (lx.fi hdir.2.2.2).1
+    have hnc : Fi s.tree x ≠ c := fun e => sh.nop (by rw [e, hcop])
+    have hnT : Fi s.tree x ≠ T := fun e => sh.nop (by rw [e, hTop])
+    refine sh.transfer (sp.pay x) hfx hlx (sp.pay _) (hFL _ hnc hnT).1 ?_ (sp.pay _)
+    rw [hNx]
+    have h1 : Fi s.tree x ≠ m := fun e => hxc (by rw [← hnp, e, hpm])
+    have h2' : ¬ (Fi s.tree x = La s.tree T ∧ La s.tree T ≠ INV) := by
+      intro hq
+      have := ((w.lP hT).la hq.2).1
+      rw [← hq.1, hnp] at this
+      exact hxT this
+    have h3 : ¬ (Fi s.tree x = Pv s.tree m ∧ Pv s.tree m ≠ INV) := by
+      intro hq
+      have := ((w.lP hm).pv hq.2).2
+      rw [← hq.1, hnp, hpm] at this
+      exact hxc this
+    rw [if_neg h1, if_neg h2', if_neg h3]
+
+/-- the contents loop of a merge: every child of the contents block `c` goes to the end of the list of `T` -/
+theorem moveContents_np {d : Bytes} {s0 : PState} {X0 : Nat} (w0 : WF s0.tree) (c T : Nat) :
+    ∀ (f sib : Nat) {s : PState} {Mvd : Nat → Prop}, MI d s → Ctx s0 X0 Mvd s →
+    live s.tree c = true → (slot s.tree c).opcode = opIntScopeBlock → live s.tree T = true →
+    (slot s.tree T).opcode = opIntScopeBlock → T ≠ c → ¬ anc s.tree c T → anc s0.tree X0 c → sib = Fi s.tree c →
+    NPs (moveContents c T f sib) s (fun _ s' => MI d s' ∧
+      (∃ Mvd', (∀ y, Mvd y → Mvd' y) ∧ Ctx s0 X0 Mvd' s' ∧ (sib ≠ INV → Mvd' sib)) ∧ Mv s s' ∧
+      Fi s'.tree c = INV ∧ SamePay s.tree s'.tree ∧
+      (∀ x, C13.P s.tree x ≠ c → C13.P s'.tree x = C13.P s.tree x) ∧
+      (∀ x, x ≠ c → x ≠ T → Fi s'.tree x = Fi s.tree x ∧ La s'.tree x = La s.tree x)) := by
+  intro f
+  induction f with
+  | zero => intro sib s Mvd _ _ _ _ _ _ _ _ _ _; unfold moveContents; exact NPs.fuel
+  | succ f ih =>
+    intro sib s Mvd h ctx hc hcop hT hTop hTc hnanc hcin hsib
+    have w := h.tp.wf
+    unfold moveContents
+    by_cases h0 : sib = invalidIndex
+    · rw [if_pos h0]
+      refine NPs.pure ⟨h, ⟨Mvd, fun _ hy => hy, ctx, fun hne => absurd h0 hne⟩, Mv.refl s, by rw [← hsib]; exact h0, SamePay.refl _, fun _ _ => rfl,
+        fun _ _ _ => ⟨rfl, rfl⟩⟩
+    · rw [if_neg h0]
+      have lc := w.lP hc
+      have hfne : Fi s.tree c ≠ INV := by rw [← hsib]; exact h0
+      have hm : live s.tree sib = true := by
+        rw [hsib]
+        rcases lc.lfi with h1 | h1
+        · exact absurd h1 hfne
+        · exact h1
+      have hpm : C13.P s.tree sib = c := by rw [hsib]; exact (lc.fi hfne).1
+      refine NPs.step (objectAt_live' hm) ?_
+      refine NPs.step (derefP_some_ex _) ?_
+      refine NPs.step (nextOf_live hm) ?_
+      have hcne : c ≠ INV := live_ne_INV w.size_le hc
+      have hna : ¬ anc s.tree sib T := by
+        intro ha
+        have := anc_parent ha (by rw [hpm]; exact hcne)
+        rw [hpm] at this
+        exact hnanc this
+      obtain ⟨s1, s2, e1, e2, h2, m2, hs2, sp2, hP2, hNx2, hFL2, hFc2⟩ :=
+        move_full h.tp hT hm hpm hc hTc (isAnc_false_of_not_anc w hT hna _)
+      refine NPs.step e1 ?_
+      refine NPs.step e2 ?_
+      have hi2 : MI d s2 := h.move h2 m2 sp2 hc hcop hT hTop hm hpm hP2 hNx2 hFL2
+      have ctx2 := ctx.move w m2 hm (ctx.inside_child w0 hm hpm hcin) hP2 hNx2
+      -- the chain of `T` is untouched: `c` is still not one of its ancestors
+      have fr : Frame s s2 T := by
+        intro a ha
+        rw [hP2, if_neg]
+        intro e
+        rw [e] at ha
+        exact hna ha
+      have hnanc2 : ¬ anc s2.tree c T := by
+        rw [anc_of_frame h.tp m2 hT fr]; exact hnanc
+      have hsib2 : Nx s.tree sib = Fi s2.tree c := by
+        rw [hFc2, if_pos hsib.symm]
+      have := ih (Nx s.tree sib) hi2 ctx2 (by rw [m2.live]; exact hc) (by rw [pay_opcode (sp2.pay c)]; exact hcop)
+        (by rw [m2.live]; exact hT) (by rw [pay_opcode (sp2.pay T)]; exact hTop) hTc hnanc2 hcin hsib2
+      refine this.mono ?_
+      intro _ s' hq
+      obtain ⟨q1, ⟨Mvd', q2, q3, _⟩, q4, q5, q6, q7, q8⟩ := hq
+      refine ⟨q1, ⟨Mvd', fun y hy => q2 y (Or.inl hy), q3, fun _ => q2 sib (Or.inr rfl)⟩, m2.trans q4, q5, sp2.trans q6, ?_, ?_⟩
+      · intro x hx
+        have hxm : x ≠ sib := fun e => hx (by rw [e]; exact hpm)
+        have : C13.P s2.tree x = C13.P s.tree x := by rw [hP2, if_neg hxm]
+        rw [q7 x (by rw [this]; exact hx), this]
+      · intro x hxc hxT
+        obtain ⟨a1, a2⟩ := q8 x hxc hxT
+        obtain ⟨b1, b2⟩ := hFL2 x hxc hxT
+        exact ⟨by rw [a1, b1], by rw [a2, b2]⟩
+
+/-- the arguments of a shaped directive are its name and its contents block, nothing else -/
+theorem dir_kids {d : Bytes} {t : ObjectTree} (w : WF t) {x y : Nat} (hx : live t x = true) (hf : Fi t x ≠ INV)
+    (sh : ShapeAt d t x) (hy : live t y = true) (hp : C13.P t y = x) : y = Fi t x ∨ y = La t x := by
+  have lx := w.lP hx
+  have hnl : live t (Fi t x) = true := by
+    rcases lx.lfi with h1 | h1
+    · exact absurd h1 hf
+    · exact h1
+  have hla : La t x ≠ INV := fun e => hf (lx.ends.2 e)
+  have hcl : live t (La t x) = true := by
+    rcases lx.lla with h1 | h1
+    · exact absurd h1 hla
+    · exact h1
+  have hch : Chain t (Nx t) (Fi t x) [Fi t x, La t x] :=
+    ⟨rfl, hnl, by rw [sh.two]; exact ⟨rfl, hcl, (lx.la hla).2⟩⟩
+  have hk := w.kids_of_chain hx hch
+  have := (w.kids_mem x hx y).2 ⟨hy, hp⟩
+  rw [hk] at this
+  simpa using this
+
+/-- an object with a child has a first argument -/
+theorem fi_ne_of_child {t : ObjectTree} (w : WF t) {q y : Nat} (hq : live t q = true) (hy : live t y = true)
+    (hp : C13.P t y = q) : Fi t q ≠ INV := by
+  intro e
+  have := (kids_nil_iff w hq).2 e
+  have hm := (w.kids_mem q hq y).2 ⟨hy, hp⟩
+  rw [this] at hm; cases hm
+
+/-- the three `free`s at the end of a merge: the (childless) name, the emptied contents block, the directive -/
+theorem freeTriple {d : Bytes} {s0 s : PState} {X0 : Nat} {Mvd : Nat → Prop} (w0 : WF s0.tree) (h : MI d s)
+    (ctx : Ctx s0 X0 Mvd s) {X : Nat} (hX : IsDir s X) (hcf : Fi s.tree (La s.tree X) = INV) (hin : anc s0.tree X0 X) :
+    ∃ s1 s2 s3, tree (·.free (Fi s.tree X)) s = .ok ((), s1) ∧ tree (·.free (La s.tree X)) s1 = .ok ((), s2) ∧
+      tree (·.free X) s2 = .ok ((), s3) ∧ MI d s3 ∧ Ctx s0 X0 Mvd s3 ∧ s3 = { s with tree := s3.tree } ∧
+      (∀ y, live s3.tree y = (((live s.tree y && decide (y ≠ Fi s.tree X)) && decide (y ≠ La s.tree X)) && decide (y ≠ X))) := by
+  obtain ⟨hXl, hXop, hXh, hXf⟩ := hX
+  have w := h.tp.wf
+  have sh := h.shape X ⟨hXl, hXop, hXh, hXf⟩
+  have hinv : ∀ {t : ObjectTree} (w : WF t) j, live t j = true → j ≠ INV := fun w j hj => live_ne_INV w.size_le hj
+  have lX := w.lP hXl
+  -- the name `n` and the contents block `c`
+  have hnl : live s.tree (Fi s.tree X) = true := by
+    rcases lX.lfi with h1 | h1
+    · exact absurd h1 hXf
+    · exact h1
+  have hla : La s.tree X ≠ INV := fun e => hXf (lX.ends.2 e)
+  have hcl : live s.tree (La s.tree X) = true := by
+    rcases lX.lla with h1 | h1
+    · exact absurd h1 hla
+    · exact h1
+  have hnp : C13.P s.tree (Fi s.tree X) = X := (lX.fi hXf).1
+  have hnpv : Pv s.tree (Fi s.tree X) = INV := (lX.fi hXf).2
+  have hcp : C13.P s.tree (La s.tree X) = X := (lX.la hla).1
+  have hcnx : Nx s.tree (La s.tree X) = INV := (lX.la hla).2
+  have hXne : X ≠ INV := hinv w X hXl
+  have hnc : Fi s.tree X ≠ La s.tree X := by
+    intro e
+    have := wf_Nx_ne_self w hnl
+    rw [sh.two, ← e] at this; exact this rfl
+  have hn0 : Fi s.tree X ≠ 0 := fun e => hXne (by rw [← hnp, e]; exact h.rootP)
+  have hc0 : La s.tree X ≠ 0 := fun e => hXne (by rw [← hcp, e]; exact h.rootP)
+  have hX0 : X ≠ 0 := fun e => scope_ne_block (by rw [← hXop, e]; exact h.rootOp)
+  have hXn : X ≠ Fi s.tree X := fun e => wf_P_ne_self w hnl (by rw [hnp]; exact e)
+  have hXc : X ≠ La s.tree X := fun e => wf_P_ne_self w hcl (by rw [hcp]; exact e)
+  -- free the name
+  obtain ⟨s1, e1, h1, hs1, hsz1, hl1, hpay1, hP1, hNx1, hFL1⟩ :=
+    free_step h.tp hnl sh.nkids ((w.lP hnl).ends.1 sh.nkids) hn0
+  have hNx1' : ∀ x, x ≠ Fi s.tree X → Nx s1.tree x = Nx s.tree x := by
+    intro x hx; rw [hNx1 x hx, if_neg (fun hc => hc.2 hnpv)]
+  have hcl1 : live s1.tree (La s.tree X) = true := by rw [hl1]; simp [hcl, Ne.symm hnc]
+  have hXl1 : live s1.tree X = true := by rw [hl1]; simp [hXl, hXn]
+  have hfX1 : Fi s1.tree X = La s.tree X := by
+    rw [(hFL1 X hXn hXl).1, if_pos ⟨hnp.symm, rfl⟩, sh.two]
+  have hfc1 : Fi s1.tree (La s.tree X) = INV := by
+    rw [(hFL1 _ (Ne.symm hnc) hcl).1, if_neg (fun hc => hXc (by rw [hnp] at hc; exact hc.1.symm))]; exact hcf
+  have hcp1 : C13.P s1.tree (La s.tree X) = X := by rw [hP1 _ (Ne.symm hnc)]; exact hcp
+  have ctx1 : Ctx s0 X0 Mvd s1 := ctx.free w hnl (ctx.inside_child w0 hnl hnp hin) hsz1 (by rw [hs1]) hl1 hP1 hNx1
+  -- free the contents block
+  obtain ⟨s2, e2, h2, hs2, hsz2, hl2, hpay2, hP2, hNx2, hFL2⟩ :=
+    free_step h1 hcl1 hfc1 ((h1.wf.lP hcl1).ends.1 hfc1) hc0
+  have hpvc1 : Pv s1.tree (La s.tree X) = INV := by
+    have := ((h1.wf.lP hXl1).fi (by rw [hfX1]; exact hla)).2
+    rw [hfX1] at this; exact this
+  have hNx2' : ∀ x, x ≠ La s.tree X → Nx s2.tree x = Nx s1.tree x := by
+    intro x hx; rw [hNx2 x hx, if_neg (fun hc => hc.2 hpvc1)]
+  have hXl2 : live s2.tree X = true := by rw [hl2]; simp [hXl1, hXc]
+  have hfX2 : Fi s2.tree X = INV := by
+    rw [(hFL2 X hXc hXl1).1, if_pos ⟨hcp1.symm, hfX1⟩, hNx1' _ (Ne.symm hnc)]; exact hcnx
+  have ctx2 : Ctx s0 X0 Mvd s2 :=
+    ctx1.free h1.wf hcl1 (ctx1.inside_child w0 hcl1 hcp1 hin) hsz2 (by rw [hs2]) hl2 hP2 hNx2
+  -- free the directive
+  obtain ⟨s3, e3, h3, hs3, hsz3, hl3, hpay3, hP3, hNx3, hFL3⟩ :=
+    free_step h2 hXl2 hfX2 ((h2.wf.lP hXl2).ends.1 hfX2) hX0
+  have ctx3 : Ctx s0 X0 Mvd s3 := ctx2.free h2.wf hXl2 hin hsz3 (by rw [hs3]) hl3 hP3 hNx3
+  have hlive3 : ∀ y, live s3.tree y = true → live s.tree y = true ∧ y ≠ Fi s.tree X ∧ y ≠ La s.tree X ∧ y ≠ X := by
+    intro y hy
+    have a3 := hl3 y; rw [hy] at a3
+    simp only [Bool.true_eq, Bool.and_eq_true, decide_eq_true_eq] at a3
+    have a2 := hl2 y; rw [a3.1] at a2
+    simp only [Bool.true_eq, Bool.and_eq_true, decide_eq_true_eq] at a2
+    have a1 := hl1 y; rw [a2.1] at a1
+    simp only [Bool.true_eq, Bool.and_eq_true, decide_eq_true_eq] at a1
+    exact ⟨a1.1, a1.2, a2.2, a3.2⟩
+  have hpay : ∀ y, y ≠ Fi s.tree X → y ≠ La s.tree X → y ≠ X → Pay (slot s3.tree y) = Pay (slot s.tree y) := by
+    intro y a b c; rw [hpay3 y c, hpay2 y b, hpay1 y a]
+  have hPall : ∀ y, y ≠ Fi s.tree X → y ≠ La s.tree X → y ≠ X → C13.P s3.tree y = C13.P s.tree y := by
+    intro y a b c; rw [hP3 y c, hP2 y b, hP1 y a]
+  refine ⟨s1, s2, s3, e1, e2, e3, ⟨h3, ?_, ?_, ?_⟩, ctx3, by rw [hs3, hs2, hs1], fun y => by rw [hl3, hl2, hl1]⟩
+  · rw [hPall 0 (Ne.symm hn0) (Ne.symm hc0) (Ne.symm hX0)]; exact h.rootP
+  · rw [pay_opcode (hpay 0 (Ne.symm hn0) (Ne.symm hc0) (Ne.symm hX0))]; exact h.rootOp
+  · -- the other directives keep their shape
+    intro x hx
+    obtain ⟨hxl3, hxop3, hxh3, hxf3⟩ := hx
+    obtain ⟨hxl, hxn, hxc, hxX⟩ := hlive3 x hxl3
+    have hxpay := hpay x hxn hxc hxX
+    have hxop : (slot s.tree x).opcode = opScope := by rw [← pay_opcode hxpay]; exact hxop3
+    have hxl1 : live s1.tree x = true := by rw [hl1]; simp [hxl, hxn]
+    have hxl2 : live s2.tree x = true := by rw [hl2]; simp [hxl1, hxc]
+    -- `x` is not the parent of the directive that was freed
+    have hq : ∀ q, x = q → C13.P s.tree X = q → Fi s.tree x ≠ INV → False := by
+      intro q hxq hpq hf
+      have shx := h.shape x ⟨hxl, hxop, by rw [← pay_handle hxpay, hxh3, hs3, hs2, hs1], hf⟩
+      rcases dir_kids w hxl hf shx hXl (by rw [hpq, hxq]) with e | e
+      · exact hXf (by rw [e]; exact shx.nkids)
+      · exact scope_ne_block (by rw [← hXop, e]; exact shx.cop)
+    -- first and last argument of `x` did not change
+    have hfx1 := hFL1 x hxn hxl
+    rw [hnp, if_neg (fun hc => hxX hc.1), if_neg (fun hc => hxX hc.1)] at hfx1
+    have hfx2 := hFL2 x hxc hxl1
+    rw [hcp1, if_neg (fun hc => hxX hc.1), if_neg (fun hc => hxX hc.1)] at hfx2
+    have hPX2 : C13.P s2.tree X = C13.P s.tree X := by rw [hP2 X hXc, hP1 X hXn]
+    have hfx3 := hFL3 x hxX hxl2
+    have hfx : Fi s.tree x ≠ INV := by
+      intro e0
+      apply hxf3
+      rw [hfx3.1]
+      split
+      · rename_i hc
+        exfalso
+        -- x is the parent of X and has no first argument: impossible
+        exact fi_ne_of_child w hxl hXl (by rw [← hPX2]; exact hc.1.symm) e0
+      · rw [hfx2.1, hfx1.1]; exact e0
+    have hxq : x ≠ C13.P s.tree X := fun e => hq _ e rfl hfx
+    rw [hPX2, if_neg (fun hc => hxq hc.1), if_neg (fun hc => hxq hc.1)] at hfx3
+    have hfi : Fi s3.tree x = Fi s.tree x := by rw [hfx3.1, hfx2.1, hfx1.1]
+    have hlax : La s3.tree x = La s.tree x := by rw [hfx3.2, hfx2.2, hfx1.2]
+    have hdir : IsDir s x := ⟨hxl, hxop, by rw [← pay_handle hxpay, hxh3, hs3, hs2, hs1], hfx⟩
+    have shx := h.shape x hdir
+    have lx := w.lP hxl
+    -- its name object
+    have hnxl : live s.tree (Fi s.tree x) = true := by
+      rcases lx.lfi with h0 | h0
+      · exact absurd h0 hfx
+      · exact h0
+    have hnxp : C13.P s.tree (Fi s.tree x) = x := (lx.fi hfx).1
+    have n1 : Fi s.tree x ≠ Fi s.tree X := fun e => hxX (by rw [← hnxp, e, hnp])
+    have n2 : Fi s.tree x ≠ La s.tree X := fun e => hxX (by rw [← hnxp, e, hcp])
+    have n3 : Fi s.tree x ≠ X := fun e => hXf (by rw [← e]; exact shx.nkids)
+    have hlax0 : La s.tree x ≠ INV := fun e => hfx (lx.ends.2 e)
+    have hcxl : live s.tree (La s.tree x) = true := by
+      rcases lx.lla with h0 | h0
+      · exact absurd h0 hlax0
+      · exact h0
+    have hcxp : C13.P s.tree (La s.tree x) = x := (lx.la hlax0).1
+    have c1 : La s.tree x ≠ Fi s.tree X := fun e => hxX (by rw [← hcxp, e, hnp])
+    have c2 : La s.tree x ≠ La s.tree X := fun e => hxX (by rw [← hcxp, e, hcp])
+    have c3 : La s.tree x ≠ X := fun e => scope_ne_block (by rw [← hXop, ← e]; exact shx.cop)
+    have hnl1 : live s1.tree (Fi s.tree x) = true := by rw [hl1]; simp [hnxl, n1]
+    have hnl2 : live s2.tree (Fi s.tree x) = true := by rw [hl2]; simp [hnl1, n2]
+    -- the name object has no children: it is nobody's parent
+    have nq : ∀ z, live s.tree z = true → C13.P s.tree z ≠ Fi s.tree x := by
+      intro z hz e
+      exact fi_ne_of_child w hnxl hz e shx.nkids
+    have hnf : Fi s3.tree (Fi s.tree x) = Fi s.tree (Fi s.tree x) := by
+      have a1 := (hFL1 _ n1 hnxl).1
+      rw [if_neg (fun hc => nq _ hnl hc.1.symm)] at a1
+      have a2 := (hFL2 _ n2 hnl1).1
+      rw [if_neg (fun hc => nq _ hcl (by rw [← hP1 _ (Ne.symm hnc)]; exact hc.1.symm))] at a2
+      have a3 := (hFL3 _ n3 hnl2).1
+      rw [if_neg (fun hc => nq _ hXl (by rw [← hPX2]; exact hc.1.symm))] at a3
+      rw [a3, a2, a1]
+    have hnn : Nx s3.tree (Fi s.tree x) = Nx s.tree (Fi s.tree x) := by
+      rw [hNx3 _ n3, hNx2' _ n2, hNx1' _ n1, if_neg]
+      intro hc
+      -- the predecessor of X would be the name object of x: then x is the parent of X
+      have := ((h2.wf.lP hXl2).pv hc.2).2
+      rw [← hc.1, hPX2, hP2 _ n2, hP1 _ n1, hnxp] at this
+      exact hxq this
+    exact shx.transfer hxpay hfi hlax (hpay _ n1 n2 n3) hnf hnn (hpay _ c1 c2 c3)
+
+/-- the `pOpScope` case of `mergeScopeDirectives` for a shaped directive `X` -/
+theorem mergeScope_np {d : Bytes} (fuel : Nat) {s0 : PState} {X0 : Nat} (w0 : WF s0.tree) {s : PState} {Mvd : Nat → Prop}
+    (h : MI d s) (ctx : Ctx s0 X0 Mvd s) {X : Nat} (hX : IsDir s X) (hin : anc s0.tree X0 X) :
+    NPs (mergeScope d fuel X) s (fun r s' => MI d s' ∧ s'.tableHandle = s.tableHandle ∧
+      ∃ Mvd', (∀ y, Mvd y → Mvd' y) ∧ Ctx s0 X0 Mvd' s' ∧
+        (∀ f1, r = .inr f1 → f1 = INV ∨ (live s'.tree f1 = true ∧ Mvd' f1))) := by
+  obtain ⟨hXl, hXop, hXh, hXf⟩ := hX
+  have w := h.tp.wf
+  have sh := h.shape X ⟨hXl, hXop, hXh, hXf⟩
+  have lX := w.lP hXl
+  have hnl : live s.tree (Fi s.tree X) = true := by
+    rcases lX.lfi with h1 | h1
+    · exact absurd h1 hXf
+    · exact h1
+  have hla : La s.tree X ≠ INV := fun e => hXf (lX.ends.2 e)
+  have hcl : live s.tree (La s.tree X) = true := by
+    rcases lX.lla with h1 | h1
+    · exact absurd h1 hla
+    · exact h1
+  have hcp : C13.P s.tree (La s.tree X) = X := (lX.la hla).1
+  have hXne : X ≠ INV := live_ne_INV w.size_le hXl
+  have same : MI d s ∧ s.tableHandle = s.tableHandle ∧ ∃ Mvd', (∀ y, Mvd y → Mvd' y) ∧ Ctx s0 X0 Mvd' s ∧
+      (∀ f1, (Sum.inl PRes.failed : Sum PRes Nat) = .inr f1 → f1 = INV ∨ (live s.tree f1 = true ∧ Mvd' f1)) :=
+    ⟨h, rfl, Mvd, fun _ hy => hy, ctx, fun f1 hc => by cases hc⟩
+  unfold mergeScope
+  refine NPs.step (getObj_live hXl) ?_
+  refine NPs.step (objectAt_live' hnl) ?_
+  refine NPs.step (derefP_some_ex _) ?_
+  obtain ⟨off, len, hv, hexpr⟩ := sh.val
+  have eb : bytesValue d (Fi s.tree X) s = .ok (sliceBytes d off len, s) := by
+    unfold bytesValue
+    show (StateT.bind _ _) s = _
+    simp only [StateT.bind, getObj_live hnl, bind, Except.bind, hv, valBytes]
+    rfl
+  refine NPs.step eb ?_
+  refine NPs.step (a := s.tree) (s1 := s) rfl ?_
+  have hscope : C13.P s.tree X = INV ∨ live s.tree (C13.P s.tree X) = true := lX.lp
+  obtain ⟨ti, efind, hti⟩ := find_total' w h.tp.root (C13.P s.tree X) hscope (sliceBytes d off len)
+  have e2 : liftR (s.tree.Find (slot s.tree X).parentIndex (sliceBytes d off len)) s = .ok (ti, s) := by
+    unfold liftR
+    have : (slot s.tree X).parentIndex = C13.P s.tree X := rfl
+    rw [this, efind]; rfl
+  refine NPs.step e2 ?_
+  by_cases hti0 : ti = invalidIndex
+  · rw [if_pos hti0]
+    refine NPs.step (passCounters_ex s) ?_
+    split
+    · exact NPs.pure ⟨h, rfl, Mvd, fun _ hy => hy, ctx, fun f1 hc => by cases hc⟩
+    · exact NPs.pure ⟨h, rfl, Mvd, fun _ hy => hy, ctx, fun f1 hc => by cases hc⟩
+  · rw [if_neg hti0]
+    have htl : live s.tree ti = true := by
+      rcases hti with h1 | h1
+      · exact absurd h1 hti0
+      · exact h1
+    -- the lookup result is outside the subtree of the directive
+    have h0X : (0 : Nat) ≠ X := fun e => scope_ne_block (by rw [← hXop, ← e]; exact h.rootOp)
+    have hscope' : C13.P s.tree X = INV ∨ (live s.tree (C13.P s.tree X) = true ∧ ¬ anc s.tree X (C13.P s.tree X)) := by
+      by_cases hp : C13.P s.tree X = INV
+      · exact Or.inl hp
+      · right
+        refine ⟨?_, not_anc_own_parent w hXl hp⟩
+        rcases lX.lp with h1 | h1
+        · exact absurd h1 hp
+        · exact h1
+    have hout : ¬ anc s.tree X ti :=
+      (find_avoid w h.tp.root sh.name0 (not_anc_root w h.rootP h0X) _ hscope' _ hexpr ti efind hti0).2
+    refine NPs.step (objectAt_live' htl) ?_
+    refine NPs.step (derefP_some_ex _) ?_
+    refine NPs.bind (scopeBlockOf_np' h.tp fuel htl) ?_
+    intro r s1 hq
+    obtain ⟨hs1, hr⟩ := hq
+    subst hs1
+    cases r with
+    | none => exact NPs.pure ⟨h, rfl, Mvd, fun _ hy => hy, ctx, fun f1 hc => by cases hc⟩
+    | some T =>
+      obtain ⟨hT, hTop, hTrel⟩ := hr T rfl
+      have hTX : T ≠ X := fun e => scope_ne_block (by rw [← hXop, ← e]; exact hTop)
+      have houtT : ¬ anc s1.tree X T := by
+        rcases hTrel with e | e
+        · rw [e]; exact hout
+        · exact not_anc_child w hT e hTX hout
+      have hTc : T ≠ La s1.tree X := by
+        intro e
+        apply houtT
+        rw [e, w.anc_step hcl (fun e2 => wf_P_ne_self w hcl (by rw [hcp]; exact e2.symm)), hcp]
+        exact w.anc_self hXl
+      have hnancc : ¬ anc s1.tree (La s1.tree X) T := by
+        intro ha
+        have := anc_parent ha (by rw [hcp]; exact hXne)
+        rw [hcp] at this
+        exact houtT this
+      refine NPs.step (getObj_live hXl) ?_
+      refine NPs.step (objectAt_live' hcl) ?_
+      refine NPs.step (derefP_some_ex _) ?_
+      refine NPs.step (getObj_live hcl) ?_
+      have hcin : anc s0.tree X0 (La s1.tree X) := ctx.inside_child w0 hcl hcp hin
+      refine NPs.bind (moveContents_np w0 (La s1.tree X) T fuel (Fi s1.tree (La s1.tree X)) h ctx hcl sh.cop hT hTop hTc
+        hnancc hcin rfl) ?_
+      intro _ s5 hq5
+      obtain ⟨h5, ⟨Mvd5, hsub5, ctx5, hfirst5⟩, m5, hfc5, sp5, hP5, hFL5⟩ := hq5
+      have hXc : X ≠ La s1.tree X := fun e => wf_P_ne_self w hcl (by rw [hcp]; exact e)
+      obtain ⟨hfX5, hlX5⟩ := hFL5 X hXc (Ne.symm hTX)
+      have hX5 : IsDir s5 X := ⟨by rw [m5.live]; exact hXl, by rw [pay_opcode (sp5.pay X)]; exact hXop,
+        by rw [pay_handle (sp5.pay X), hXh, m5.handle], by rw [hfX5]; exact hXf⟩
+      obtain ⟨s6, s7, s8, e6, e7, e8, h8, ctx8, hs8, hl8⟩ :=
+        freeTriple w0 h5 ctx5 hX5 (by rw [hlX5]; exact hfc5) hin
+      rw [hfX5] at e6
+      rw [hlX5] at e7
+      refine NPs.step e6 ?_
+      refine NPs.step e7 ?_
+      refine NPs.step e8 ?_
+      have e9 : (modify fun s => { s with mergedScopes := u32 (s.mergedScopes + 1) } : P Unit) s8 =
+          .ok ((), { s8 with mergedScopes := u32 (s8.mergedScopes + 1) }) := rfl
+      refine NPs.step e9 ?_
+      refine NPs.pure ⟨⟨⟨h8.tp.wf, h8.tp.root, h8.tp.info⟩, h8.rootP, h8.rootOp, fun x hx => h8.shape x hx⟩, ?_,
+        Mvd5, hsub5, ctx8.ofTree rfl rfl, ?_⟩
+      · show s8.tableHandle = _
+        rw [hs8, m5.handle]
+      · intro f1 hf1
+        cases hf1
+        by_cases hf0 : Fi s1.tree (La s1.tree X) = INV
+        · exact Or.inl hf0
+        · right
+          have lc := w.lP hcl
+          have hfl : live s1.tree (Fi s1.tree (La s1.tree X)) = true := by
+            rcases lc.lfi with h1 | h1
+            · exact absurd h1 hf0
+            · exact h1
+          have hfp : C13.P s1.tree (Fi s1.tree (La s1.tree X)) = La s1.tree X := (lc.fi hf0).1
+          refine ⟨?_, hfirst5 hf0⟩
+          show live s8.tree (Fi s1.tree (La s1.tree X)) = true
+          rw [hl8, hfX5, hlX5, m5.live, hfl]
+          have a1 : Fi s1.tree (La s1.tree X) ≠ Fi s1.tree X := by
+            intro e
+            have := (lX.fi hXf).1
+            rw [← e, hfp] at this
+            exact hXc this.symm
+          have a2 : Fi s1.tree (La s1.tree X) ≠ La s1.tree X := fun e => wf_P_ne_self w hfl (by rw [hfp]; exact e.symm)
+          have a3 : Fi s1.tree (La s1.tree X) ≠ X := by
+            intro e
+            exact wf_P_P_ne w hfl hcl hfp (by rw [hcp]; exact e.symm)
+          simp [a1, a2, a3]
+
+theorem NPs.and {α : Type} {x : P α} {s : PState} {Q R : α → PState → Prop} (h1 : NPs x s Q) (h2 : NPs x s R) :
+    NPs x s (fun a s' => Q a s' ∧ R a s') :=
+  ⟨h1.1, fun a s' he => ⟨h1.2 a s' he, h2.2 a s' he⟩⟩
+
+/-- a later sibling is not inside the subtree of an earlier one -/
+theorem sibling_not_desc {t : ObjectTree} (w : WF t) {a : Nat} (ha : live t a = true) (hn : Nx t a ≠ INV) :
+    ¬ anc t a (Nx t a) := by
+  have la := w.lP ha
+  have hNl : live t (Nx t a) = true := by
+    rcases la.lnx with h1 | h1
+    · exact absurd h1 hn
+    · exact h1
+  have hpp : C13.P t (Nx t a) = C13.P t a := (la.nx hn).2
+  have hp : C13.P t a ≠ INV := fun e => hn (la.det e).2
+  intro h
+  rw [w.anc_step hNl (wf_Nx_ne_self w ha), hpp] at h
+  exact not_anc_own_parent w ha hp h
+
+/-- what the sibling loop of the merge walk knows about its current position -/
+def Good (s0 : PState) (X0 : Nat) (Mvd : Nat → Prop) (s : PState) (sib : Nat) : Prop :=
+  sib = INV ∨ (live s.tree sib = true ∧ anc s0.tree X0 sib ∧ (Mvd sib ∨ anc s0.tree X0 (C13.P s.tree sib)))
+
+/-- `mergeScopeDirectives` and the loop over the children, by induction on the fuel -/
+theorem merge_np (d : Bytes) : ∀ (f : Nat),
+    (∀ {s0 s : PState} {X0 : Nat} {Mvd : Nat → Prop} (X : Nat), WF s0.tree → MI d s → Ctx s0 X0 Mvd s →
+      live s.tree X = true → anc s0.tree X0 X →
+      NPs (mergeScopeDirectives d f X) s (fun _ s' => MI d s' ∧ s'.tableHandle = s.tableHandle ∧
+        ∃ Mvd', (∀ y, Mvd y → Mvd' y) ∧ Ctx s0 X0 Mvd' s')) ∧
+    (∀ {s0 s : PState} {X0 : Nat} {Mvd : Nat → Prop} (sib : Nat) (res : PRes), WF s0.tree → MI d s → Ctx s0 X0 Mvd s →
+      Good s0 X0 Mvd s sib →
+      NPs (mergeLoop d f sib res) s (fun _ s' => MI d s' ∧ s'.tableHandle = s.tableHandle ∧
+        ∃ Mvd', (∀ y, Mvd y → Mvd' y) ∧ Ctx s0 X0 Mvd' s')) := by
+  intro f
+  induction f with
+  | zero =>
+    constructor
+    · intro s0 s X0 Mvd X _ _ _ _ _; unfold mergeScopeDirectives; exact NPs.fuel
+    · intro s0 s X0 Mvd sib res _ _ _ _; unfold mergeLoop; exact NPs.fuel
+  | succ f ih =>
+    constructor
+    · intro s0 s X0 Mvd X w0 h ctx hXl hin
+      unfold mergeScopeDirectives
+      refine NPs.step (objectAt_live' hXl) ?_
+      refine NPs.step (derefP_some_ex _) ?_
+      refine NPs.step (getObj_live hXl) ?_
+      -- the counter reset does not touch the tree
+      have cont : ∀ sa : PState, sa.tree = s.tree → sa.tableHandle = s.tableHandle →
+          NPs (do
+            let flags ← optP (opFlags (slot s.tree X).infoIndex)
+            if hasFlag flags flagExecutable = true then pure PRes.ok
+              else do
+                let __do_lift ← tableHandle
+                if (slot s.tree X).opcode = opScope ∧ (slot s.tree X).tableHandle = __do_lift then
+                    if (slot s.tree X).firstArgIndex = invalidIndex then pure PRes.failed
+                    else do
+                      let __do_lift ← mergeScope d f X
+                      match __do_lift with
+                        | Sum.inl res => pure res
+                        | Sum.inr firstArgIndex => mergeLoop d f firstArgIndex PRes.ok
+                  else mergeLoop d f (slot s.tree X).firstArgIndex PRes.ok) sa
+            (fun _ s' => MI d s' ∧ s'.tableHandle = s.tableHandle ∧ ∃ Mvd', (∀ y, Mvd y → Mvd' y) ∧ Ctx s0 X0 Mvd' s') := by
+        intro sa hta hha
+        have ha : MI d sa := ⟨⟨by rw [hta]; exact h.tp.wf, by rw [hta]; exact h.tp.root, by rw [hta]; exact h.tp.info⟩,
+          by rw [hta]; exact h.rootP, by rw [hta]; exact h.rootOp,
+          fun x hx => by rw [hta]; exact h.shape x ⟨by rw [← hta]; exact hx.1, by rw [← hta]; exact hx.2.1,
+            by rw [← hta, ← hha]; exact hx.2.2.1, by rw [← hta]; exact hx.2.2.2⟩⟩
+        have ctxa : Ctx s0 X0 Mvd sa := ctx.ofTree hta hha
+        have hXla : live sa.tree X = true := by rw [hta]; exact hXl
+        obtain ⟨fl, hfl⟩ := opFlags_of_info (h.tp.info X hXl)
+        rw [hfl]
+        refine NPs.step (optP_ex fl sa) ?_
+        split
+        · exact NPs.pure ⟨ha, hha, Mvd, fun _ hy => hy, ctxa⟩
+        · refine NPs.step (tableHandle_ex sa) ?_
+          split
+          · rename_i hc
+            split
+            · exact NPs.pure ⟨ha, hha, Mvd, fun _ hy => hy, ctxa⟩
+            · rename_i hfi
+              have hdir : IsDir sa X := ⟨hXla, by rw [hta]; exact hc.1, by rw [hta]; exact hc.2, by rw [hta]; exact hfi⟩
+              refine NPs.bind (mergeScope_np f w0 ha ctxa hdir hin) ?_
+              intro r s1 hq
+              obtain ⟨h1, hh1, Mvd1, hsub1, ctx1, hf1⟩ := hq
+              cases r with
+              | inl res => exact NPs.pure ⟨h1, by rw [hh1, hha], Mvd1, hsub1, ctx1⟩
+              | inr f1 =>
+                have hg : Good s0 X0 Mvd1 s1 f1 := by
+                  rcases hf1 f1 rfl with e | ⟨e1, e2⟩
+                  · exact Or.inl e
+                  · exact Or.inr ⟨e1, ctx1.inside f1 e2, Or.inl e2⟩
+                refine (ih.2 f1 PRes.ok w0 h1 ctx1 hg).mono ?_
+                intro _ s' hq'
+                obtain ⟨q1, q2, Mvd2, q3, q4⟩ := hq'
+                exact ⟨q1, by rw [q2, hh1, hha], Mvd2, fun y hy => q3 y (hsub1 y hy), q4⟩
+          · have hg : Good s0 X0 Mvd sa (slot s.tree X).firstArgIndex := by
+              show Good s0 X0 Mvd sa (Fi s.tree X)
+              by_cases hf0 : Fi s.tree X = INV
+              · exact Or.inl hf0
+              · right
+                have lX := h.tp.wf.lP hXl
+                have hfl' : live s.tree (Fi s.tree X) = true := by
+                  rcases lX.lfi with h1 | h1
+                  · exact absurd h1 hf0
+                  · exact h1
+                have hfp : C13.P s.tree (Fi s.tree X) = X := (lX.fi hf0).1
+                refine ⟨by rw [hta]; exact hfl', ctx.inside_child w0 hfl' hfp hin, Or.inr (by rw [hta, hfp]; exact hin)⟩
+            refine (ih.2 _ PRes.ok w0 ha ctxa hg).mono ?_
+            intro _ s' hq'
+            obtain ⟨q1, q2, Mvd2, q3, q4⟩ := hq'
+            exact ⟨q1, by rw [q2, hha], Mvd2, q3, q4⟩
+      dsimp only
+      by_cases h00 : X = 0
+      · rw [if_pos h00]
+        refine NPs.step (s1 := { s with mergedScopes := 0 }) (a := ()) rfl ?_
+        exact cont _ rfl rfl
+      · rw [if_neg h00]
+        exact cont s rfl rfl
+    · intro s0 s X0 Mvd sib res w0 h ctx hg
+      unfold mergeLoop
+      by_cases h0 : sib = invalidIndex
+      · rw [if_pos h0]; exact NPs.pure ⟨h, rfl, Mvd, fun _ hy => hy, ctx⟩
+      · rw [if_neg h0]
+        obtain ⟨hl, hins, hdisj⟩ : live s.tree sib = true ∧ anc s0.tree X0 sib ∧ (Mvd sib ∨ anc s0.tree X0 (C13.P s.tree sib)) := by
+          rcases hg with h1 | h1
+          · exact absurd h1 h0
+          · exact h1
+        have w := h.tp.wf
+        refine NPs.step (objectAt_live' hl) ?_
+        refine NPs.step (derefP_some_ex _) ?_
+        refine NPs.step (getObj_live hl) ?_
+        rw [w.index_eq sib (live_lt hl)]
+        -- the call on `sib`, seen from the enclosing context and from its own
+        have glob := ih.1 (s0 := s0) (X0 := X0) (Mvd := Mvd) sib w0 h ctx hl hins
+        have loc := ih.1 (s0 := s) (X0 := sib) (Mvd := fun _ => False) sib w h (Ctx.refl s sib) hl (w.anc_self hl)
+        refine NPs.bind (glob.and loc) ?_
+        intro r s1 hq
+        obtain ⟨⟨h1, hh1, Mvd1, hsub1, ctx1⟩, ⟨_, _, Ml, _, ctxl⟩⟩ := hq
+        -- the sibling saved before the call
+        have hgN : Good s0 X0 Mvd1 s1 (slot s.tree sib).nextSiblingIndex := by
+          show Good s0 X0 Mvd1 s1 (Nx s.tree sib)
+          by_cases hn : Nx s.tree sib = INV
+          · exact Or.inl hn
+          · right
+            have ls := w.lP hl
+            have hNl : live s.tree (Nx s.tree sib) = true := by
+              rcases ls.lnx with h2 | h2
+              · exact absurd h2 hn
+              · exact h2
+            have hNp : C13.P s.tree (Nx s.tree sib) = C13.P s.tree sib := (ls.nx hn).2
+            have hNl1 : live s1.tree (Nx s.tree sib) = true := by
+              cases hq : live s1.tree (Nx s.tree sib) with
+              | true => rfl
+              | false => exact absurd (ctxl.freed _ hNl hq) (sibling_not_desc w hl hn)
+            by_cases hM : Mvd sib
+            · have hMN : Mvd (Nx s.tree sib) := by
+                rcases ctx.nx sib hl hM with h2 | h2
+                · exact absurd h2 hn
+                · exact h2
+              exact ⟨hNl1, ctx.inside _ hMN, Or.inl (hsub1 _ hMN)⟩
+            · have hq0 : anc s0.tree X0 (C13.P s.tree sib) := by
+                rcases hdisj with h2 | h2
+                · exact absurd h2 hM
+                · exact h2
+              have hNin : anc s0.tree X0 (Nx s.tree sib) := ctx.inside_child w0 hNl hNp hq0
+              refine ⟨hNl1, hNin, ?_⟩
+              by_cases hM1 : Mvd1 (Nx s.tree sib)
+              · exact Or.inl hM1
+              · right
+                have hMN : ¬ Mvd (Nx s.tree sib) := fun hc => hM1 (hsub1 _ hc)
+                have e1 : C13.P s1.tree (Nx s.tree sib) = C13.P s0.tree (Nx s.tree sib) := by
+                  by_cases hne : C13.P s1.tree (Nx s.tree sib) = C13.P s0.tree (Nx s.tree sib)
+                  · exact hne
+                  · exact absurd (ctx1.moved _ hNl1 hne) hM1
+                have e2 : C13.P s.tree (Nx s.tree sib) = C13.P s0.tree (Nx s.tree sib) := by
+                  by_cases hne : C13.P s.tree (Nx s.tree sib) = C13.P s0.tree (Nx s.tree sib)
+                  · exact hne
+                  · exact absurd (ctx.moved _ hNl hne) hMN
+                rw [e1, ← e2, hNp]; exact hq0
+        have loop : ∀ res', NPs (mergeLoop d f (slot s.tree sib).nextSiblingIndex res') s1
+            (fun _ s' => MI d s' ∧ s'.tableHandle = s.tableHandle ∧ ∃ Mvd', (∀ y, Mvd y → Mvd' y) ∧ Ctx s0 X0 Mvd' s') := by
+          intro res'
+          refine (ih.2 _ res' w0 h1 ctx1 hgN).mono ?_
+          intro _ s' hq'
+          obtain ⟨q1, q2, Mvd2, q3, q4⟩ := hq'
+          exact ⟨q1, by rw [q2, hh1], Mvd2, fun y hy => q3 y (hsub1 y hy), q4⟩
+        cases r with
+        | failed => exact NPs.pure ⟨h1, hh1, Mvd1, hsub1, ctx1⟩
+        | requireExtraPass => exact loop _
+        | ok => exact loop _
+        | shortCircuit => exact loop _
+
+/-! ## `relocateNamedObjects` keeps the merge invariant -/
+
+/-- `detach(P m, m)`; `append(T, m)` for any live target outside the subtree of `m` (it may be the old parent) -/
+theorem move_any {s : PState} (h : TP s) {T m : Nat} (hT : live s.tree T = true) (hm : live s.tree m = true)
+    (hpl : live s.tree (C13.P s.tree m) = true) (hanc : C13.isAncestorOrSelf s.tree m s.tree.fuel T = false) :
+    ∃ s1 s2, tree (·.detach (C13.P s.tree m) m) s = .ok ((), s1) ∧ tree (·.append T m) s1 = .ok ((), s2) ∧ TP s2 ∧ Mv s s2 ∧
+      s2 = { s with tree := s2.tree } ∧ SamePay s.tree s2.tree ∧
+      (∀ x, C13.P s2.tree x = if x = m then T else C13.P s.tree x) ∧
+      (∀ x, x ≠ C13.P s.tree m → x ≠ T → Fi s2.tree x = Fi s.tree x ∧ La s2.tree x = La s.tree x) ∧
+      (∀ x, x ≠ m → C13.P s.tree x ≠ C13.P s.tree m → C13.P s.tree x ≠ T → Nx s2.tree x = Nx s.tree x) ∧
+      Fi s2.tree m = Fi s.tree m := by
+  have w := h.wf
+  have hpre : detachPre s.tree (C13.P s.tree m) m = true := by
+    simp [detachPre, hpl, hm]
+  obtain ⟨t1, e1, w1, hsz1, hl1, _, hP1, _, hNx1, hFi1, hLa1⟩ := detach_wf w hpre
+  have sp1 := detach_samePay e1
+  have h1 : TP { s with tree := t1 } := h.ofTree w1 hl1 sp1
+  have hpre2 : appendPre t1 T m = true := by
+    simp only [appendPre, Bool.and_eq_true, decide_eq_true_eq, Bool.not_eq_true']
+    refine ⟨⟨⟨by rw [hl1]; exact hT, by rw [hl1]; exact hm⟩, by rw [hP1, if_pos rfl]⟩, ?_⟩
+    have hf : t1.fuel = s.tree.fuel := by unfold ObjectTree.fuel; rw [hsz1]
+    rw [hf, isAnc_congr (t := s.tree) (t' := t1) m (fun x hx => by rw [hP1, if_neg hx])]
+    exact hanc
+  obtain ⟨t2, e2, w2, hsz2, hl2, _, hP2, _, hNx2, hFi2, hLa2⟩ := append_wf w1 hpre2
+  have sp2 := append_samePay e2
+  have h2 : TP { s with tree := t2 } := by
+    have := h1.ofTree (s := { s with tree := t1 }) w2 hl2 sp2
+    exact this
+  have hmp : m ≠ C13.P s.tree m := fun e => wf_P_ne_self w hm e.symm
+  have hmT : m ≠ T := by
+    intro e
+    have : C13.isAncestorOrSelf s.tree m s.tree.fuel T = true := by
+      unfold ObjectTree.fuel
+      simp [C13.isAncestorOrSelf, e]
+    rw [this] at hanc; cases hanc
+  refine ⟨{ s with tree := t1 }, { s with tree := t2 }, tree_ex e1, tree_ex e2, h2,
+    ⟨by show t2.pool.size = _; rw [hsz2, hsz1], fun x => by show live t2 x = _; rw [hl2, hl1], rfl⟩, rfl, sp1.trans sp2,
+    ?_, ?_, ?_, ?_⟩
+  · intro x
+    show C13.P t2 x = _
+    rw [hP2]
+    split
+    · rfl
+    · rename_i hx; rw [hP1, if_neg hx]
+  · intro x hxp hxT
+    constructor
+    · show Fi t2 x = _
+      rw [hFi2, if_neg (fun hc => hxT hc.1), hFi1, if_neg (fun hc => hxp hc.1)]
+    · show La t2 x = _
+      rw [hLa2, if_neg hxT, hLa1, if_neg (fun hc => hxp hc.1)]
+  · intro x hxm hxp hxT
+    show Nx t2 x = _
+    rw [hNx2, if_neg hxm]
+    have hla1 : ¬ (x = La t1 T ∧ La t1 T ≠ INV) := by
+      intro hc
+      have hT1 : live t1 T = true := by rw [hl1]; exact hT
+      have := ((w1.lP hT1).la hc.2).1
+      rw [← hc.1, hP1, if_neg hxm] at this
+      exact hxT this
+    rw [if_neg hla1, hNx1, if_neg hxm]
+    have hpv : ¬ (x = Pv s.tree m ∧ Pv s.tree m ≠ INV) := by
+      intro hc
+      have := ((w.lP hm).pv hc.2).2
+      rw [← hc.1] at this
+      exact hxp this
+    rw [if_neg hpv]
+  · show Fi t2 m = _
+    rw [hFi2, if_neg (fun hc => hmT hc.1), hFi1, if_neg (fun hc => hmp hc.1)]
+
+/-- moving an object that is not an argument of a `Scope` directive under a scope block keeps the merge invariant -/
+theorem MI.reloc {d : Bytes} {s s2 : PState} (h : MI d s) (h2 : TP s2) (m2 : Mv s s2) (sp : SamePay s.tree s2.tree)
+    {T m : Nat} (hT : live s.tree T = true) (hTop : (slot s.tree T).opcode = opIntScopeBlock)
+    (hm : live s.tree m = true) (hpl : live s.tree (C13.P s.tree m) = true)
+    (hnd : ∀ x, IsDir s x → C13.P s.tree m ≠ x)
+    (hP : ∀ x, C13.P s2.tree x = if x = m then T else C13.P s.tree x)
+    (hFL : ∀ x, x ≠ C13.P s.tree m → x ≠ T → Fi s2.tree x = Fi s.tree x ∧ La s2.tree x = La s.tree x)
+    (hNx : ∀ x, x ≠ m → C13.P s.tree x ≠ C13.P s.tree m → C13.P s.tree x ≠ T → Nx s2.tree x = Nx s.tree x) : MI d s2 := by
+  have w := h.tp.wf
+  have hinv : ∀ j, live s.tree j = true → j ≠ INV := fun j hj => live_ne_INV w.size_le hj
+  refine ⟨h2, ?_, by rw [pay_opcode (sp.pay 0)]; exact h.rootOp, ?_⟩
+  · rw [hP, if_neg]
+    · exact h.rootP
+    · intro e
+      have := hinv _ hpl
+      rw [← e, h.rootP] at this
+      exact this rfl
+  · intro x hx
+    obtain ⟨hxl, hxop, hxh, hxf⟩ := hx
+    have hxl' : live s.tree x = true := by rw [← m2.live]; exact hxl
+    have hxop' : (slot s.tree x).opcode = opScope := by rw [← pay_opcode (sp.pay x)]; exact hxop
+    have hxh' : (slot s.tree x).tableHandle = s.tableHandle := by rw [← pay_handle (sp.pay x), hxh, m2.handle]
+    have hxT : x ≠ T := fun e => scope_ne_block (by rw [← hxop', e, hTop])
+    -- `x` is not the old parent of `m`: either it has no arguments (then it is nobody's parent) or it is a directive
+    have hxp : x ≠ C13.P s.tree m := by
+      intro e
+      by_cases hf : Fi s.tree x = INV
+      · exact fi_ne_of_child w hxl' hm e.symm hf
+      · exact hnd x ⟨hxl', hxop', hxh', hf⟩ e.symm
+    obtain ⟨hfx, hlx⟩ := hFL x hxp hxT
+    have hdir : IsDir s x := ⟨hxl', hxop', hxh', by rw [← hfx]; exact hxf⟩
+    have sh := h.shape x hdir
+    have lx := w.lP hxl'
+    have hnp : C13.P s.tree (Fi s.tree x) = x := (lx.fi hdir.2.2.2).1
+    have hnl : live s.tree (Fi s.tree x) = true := by
+      rcases lx.lfi with h0 | h0
+      · exact absurd h0 hdir.2.2.2
+      · exact h0
+    have hnT : Fi s.tree x ≠ T := fun e => sh.nop (by rw [e, hTop])
+    have hnpar : Fi s.tree x ≠ C13.P s.tree m := fun e => fi_ne_of_child w hnl hm e.symm sh.nkids
+    have hnm : Fi s.tree x ≠ m := fun e => hxp (by rw [← hnp, e])
+    refine sh.transfer (sp.pay x) hfx hlx (sp.pay _) (hFL _ hnpar hnT).1 ?_ (sp.pay _)
+    exact hNx _ hnm (by rw [hnp]; exact hxp) (by rw [hnp]; exact hxT)
+
+set_option maxRecDepth 100000 in
+theorem scope_row_not_named : ∀ fl, opFlags (pOpcodeTableIndex opScope true) = some fl → hasFlag fl flagNamed = false := by
+  have h : (opFlags (pOpcodeTableIndex opScope true)).all (fun fl => !hasFlag fl flagNamed) = true := by decide +kernel
+  intro fl hfl
+  rw [hfl] at h
+  simpa using h
+
+/-- a payload update of a slot that is not the name object of a directive keeps the merge invariant -/
+theorem MI.upd {d : Bytes} {s s1 : PState} (h : MI d s) (h1 : TP s1) (m1 : Mv s s1) (sl : SameLinks s.tree s1.tree) {i : Nat}
+    (hoth : ∀ x, x ≠ i → slot s1.tree x = slot s.tree x)
+    (hpay : (slot s1.tree i).opcode = (slot s.tree i).opcode ∧ (slot s1.tree i).name = (slot s.tree i).name ∧
+      (slot s1.tree i).tableHandle = (slot s.tree i).tableHandle ∧ (slot s1.tree i).infoIndex = (slot s.tree i).infoIndex)
+    (hni : ∀ x, IsDir s x → Fi s.tree x ≠ i) : MI d s1 := by
+  refine ⟨h1, by rw [sl.p]; exact h.rootP, ?_, ?_⟩
+  · by_cases h0 : (0 : Nat) = i
+    · rw [h0, hpay.1, ← h0]; exact h.rootOp
+    · rw [hoth 0 h0]; exact h.rootOp
+  · intro x hx
+    obtain ⟨hxl, hxop, hxh, hxf⟩ := hx
+    have hop : ∀ y, (slot s1.tree y).opcode = (slot s.tree y).opcode := by
+      intro y; by_cases hy : y = i
+      · rw [hy]; exact hpay.1
+      · rw [hoth y hy]
+    have hdir : IsDir s x := ⟨by rw [← sl.live]; exact hxl, by rw [← hop]; exact hxop, by
+      by_cases hy : x = i
+      · rw [← m1.handle, ← hxh, hy, hpay.2.2.1]
+      · rw [← m1.handle, ← hxh, hoth x hy], by rw [← sl.fi]; exact hxf⟩
+    have sh := h.shape x hdir
+    have hn := hni x hdir
+    refine ⟨?_, ?_, by rw [sl.fi, sl.fi]; exact sh.nkids, by rw [sl.fi, sl.nx, sl.la]; exact sh.two,
+      by rw [sl.la, hop]; exact sh.cop, by rw [sl.fi, hop]; exact sh.nop, ?_⟩
+    · by_cases hy : x = i
+      · rw [hy, hpay.2.1, ← hy]; exact sh.name0
+      · rw [hoth x hy]; exact sh.name0
+    · by_cases hy : x = i
+      · rw [hy, hpay.2.2.2, ← hy]; exact sh.info
+      · rw [hoth x hy]; exact sh.info
+    · obtain ⟨off, len, hv, he⟩ := sh.val
+      exact ⟨off, len, by rw [sl.fi, hoth _ hn]; exact hv, he⟩
+
+/-- the relocation of one named object keeps the merge invariant -/
+theorem relocateOne_mi (d : Bytes) (fuel : Nat) {s : PState} (h : MI d s) {obj : Nat} (ho : live s.tree obj = true)
+    (hp : C13.P s.tree obj ≠ INV) (hfi : Fi s.tree obj ≠ INV) (hnsb : (slot s.tree obj).opcode ≠ opIntScopeBlock)
+    (hnamed : ∃ fl, opFlags (slot s.tree obj).infoIndex = some fl ∧ hasFlag fl flagNamed = true)
+    (off len : Nat) (bytes : List UInt8) :
+    NPs (relocateOne d fuel obj off len bytes) s (fun _ s' => MI d s' ∧ Mv s s' ∧ KeepAtt s s') := by
+  have htp := h.tp
+  have w := htp.wf
+  unfold relocateOne
+  refine NPs.step (a := s.tree) (s1 := s) rfl ?_
+  have hn : ∀ i, live s.tree i = true → (namedInfo (slot s.tree i).infoIndex).isSome = true := by
+    intro i hi
+    obtain ⟨fl, hfl⟩ := opFlags_of_info (htp.info i hi)
+    unfold namedInfo; rw [hfl]; rfl
+  obtain ⟨anc0, eanc, hanc0⟩ := closestNamedAncestor_total' w namedInfo hn obj ho
+  have e1 : liftR (s.tree.ClosestNamedAncestor namedInfo (some obj)) s = .ok (anc0, s) := by
+    unfold liftR; rw [eanc]; rfl
+  refine NPs.step e1 ?_
+  obtain ⟨ti, efind, hti⟩ := find_total' w htp.root anc0 hanc0 (bytes.take (len - Gen.C12.amlNameLen))
+  have e2 : liftR (s.tree.Find anc0 (bytes.take (len - Gen.C12.amlNameLen))) s = .ok (ti, s) := by
+    unfold liftR; rw [efind]; rfl
+  refine NPs.step e2 ?_
+  by_cases hti0 : ti = invalidIndex
+  · rw [if_pos hti0]
+    refine NPs.step (passCounters_ex s) ?_
+    split
+    · exact NPs.pure ⟨h, Mv.refl s, KeepAtt.refl s⟩
+    · exact NPs.pure ⟨h, Mv.refl s, KeepAtt.refl s⟩
+  · rw [if_neg hti0]
+    have htl : live s.tree ti = true := by
+      rcases hti with h1 | h1
+      · exact absurd h1 hti0
+      · exact h1
+    refine NPs.step (objectAt_live' htl) ?_
+    refine NPs.step (derefP_some_ex _) ?_
+    refine NPs.bind (scopeBlockOf_np' htp fuel htl) ?_
+    intro r s1 hq
+    obtain ⟨hs1, hr⟩ := hq
+    subst hs1
+    cases r with
+    | none => exact NPs.pure ⟨h, Mv.refl _, KeepAtt.refl _⟩
+    | some target =>
+      obtain ⟨htg, htop, _⟩ := hr target rfl
+      refine NPs.step (getObj_live htg) ?_
+      rw [w.index_eq target (live_lt htg)]
+      refine NPs.bind (isAncP_np htp ho fuel target htg) ?_
+      intro b s2 hq2
+      obtain ⟨hs2, hb⟩ := hq2
+      subst hs2
+      cases b with
+      | true => exact NPs.pure ⟨h, Mv.refl _, KeepAtt.refl _⟩
+      | false =>
+        have hnanc := hb rfl
+        have hpl : live s2.tree (C13.P s2.tree obj) = true := by
+          rcases (w.lP ho).lp with h1 | h1
+          · exact absurd h1 hp
+          · exact h1
+        refine NPs.step (getObj_live ho) ?_
+        refine NPs.step (objectAt_live' hpl) ?_
+        refine NPs.step (derefP_some_ex _) ?_
+        obtain ⟨s3, s4, e3, e4, h4, m4, hs4, sp4, hP4, hFL4, hNx4, hFo4⟩ := move_any htp htg ho hpl (hnanc _)
+        refine NPs.step e3 ?_
+        refine NPs.step e4 ?_
+        -- the old parent is not a directive: `obj` has arguments and is not a scope block
+        have hnd : ∀ x, IsDir s2 x → C13.P s2.tree obj ≠ x := by
+          intro x hx e
+          have shx := h.shape x hx
+          rcases dir_kids w hx.1 hx.2.2.2 shx ho e with e' | e'
+          · exact hfi (by rw [e']; exact shx.nkids)
+          · exact hnsb (by rw [e']; exact shx.cop)
+        have hi4 : MI d s4 := h.reloc h4 m4 sp4 htg htop ho hpl hnd hP4 hFL4 hNx4
+        have ho4 : live s4.tree obj = true := by rw [m4.live]; exact ho
+        refine NPs.step (getObj_live ho4) ?_
+        have hfl4 : live s4.tree (Fi s4.tree obj) = true := by
+          rcases (h4.wf.lP ho4).lfi with h1 | h1
+          · rw [hFo4] at h1; exact absurd h1 hfi
+          · exact h1
+        refine NPs.step (objectAt_live' hfl4) ?_
+        refine NPs.step (derefP_some_ex _) ?_
+        have hfv : ∃ fv : Obj → Obj, fv = fun fo => { fo with value := .bytes (off + (len - Gen.C12.amlNameLen)) (len - (len - Gen.C12.amlNameLen)) } :=
+          ⟨_, rfl⟩
+        obtain ⟨fv, hfvd⟩ := hfv
+        rw [← hfvd]
+        have hkl : KeepsLinks fv := by rw [hfvd]; keeps_links
+        have hklv : KeepsLive s4.tree (Fi s4.tree obj) fv := by rw [hfvd]; exact Iff.rfl
+        obtain ⟨s5, e5, h5, m5, sl5⟩ := updObj_tp h4 hfl4 fv hkl hklv (by rw [hfvd]; exact h4.info _ hfl4)
+        refine NPs.step e5 ?_
+        have hs5 : s5 = { s4 with tree := setAt s4.tree (Fi s4.tree obj) fv } := by
+          have := updObj_ex (s := s4) fv (live_lt hfl4)
+          rw [this] at e5; cases e5; rfl
+        have hlt4 := live_lt hfl4
+        have hoth5 : ∀ x, x ≠ Fi s4.tree obj → slot s5.tree x = slot s4.tree x := by
+          intro x hx
+          rw [hs5]; show slot (setAt s4.tree _ _) x = _
+          rw [slot_setAt', if_neg (fun hc => hx hc.1.symm)]
+        have hself5 : slot s5.tree (Fi s4.tree obj) = fv (slot s4.tree (Fi s4.tree obj)) := by
+          rw [hs5]; show slot (setAt s4.tree _ _) _ = _
+          rw [slot_setAt', if_pos ⟨rfl, hlt4⟩]
+        -- `obj` is not a directive (it is named), so its first argument is not a directive's name object
+        have hni : ∀ x, IsDir s4 x → Fi s4.tree x ≠ Fi s4.tree obj := by
+          intro x hx e
+          have hpx : C13.P s4.tree (Fi s4.tree x) = x := ((h4.wf.lP hx.1).fi hx.2.2.2).1
+          have hpo : C13.P s4.tree (Fi s4.tree obj) = obj := ((h4.wf.lP ho4).fi (by rw [hFo4]; exact hfi)).1
+          have hxo : x = obj := by rw [← hpx, e, hpo]
+          have shx := hi4.shape x hx
+          obtain ⟨fl, hfl, hnm⟩ := hnamed
+          have hinfo : (slot s4.tree obj).infoIndex = (slot s2.tree obj).infoIndex := pay_info (sp4.pay obj)
+          have := scope_row_not_named fl (by rw [← shx.info, hxo, hinfo]; exact hfl)
+          rw [hnm] at this; cases this
+        have hi5 : MI d s5 := hi4.upd h5 m5 sl5 hoth5 (by rw [hself5, hfvd]; exact ⟨rfl, rfl, rfl, rfl⟩) hni
+        have e6 : (modify fun s => { s with relocatedObjects := u32 (s.relocatedObjects + 1) } : P Unit) s5 =
+            .ok ((), { s5 with relocatedObjects := u32 (s5.relocatedObjects + 1) }) := rfl
+        refine NPs.step e6 ?_
+        refine NPs.pure ⟨⟨⟨h5.wf, h5.root, h5.info⟩, hi5.rootP, hi5.rootOp, fun x hx => hi5.shape x hx⟩, ⟨?_, ?_, ?_⟩, ?_⟩
+        · show s5.tree.pool.size = _
+          rw [m5.size, m4.size]
+        · intro x; show live s5.tree x = _
+          rw [m5.live, m4.live]
+        · show s5.tableHandle = _
+          rw [m5.handle, m4.handle]
+        · intro x hx
+          show C13.P s5.tree x ≠ INV
+          rw [sl5.p, hP4]
+          split
+          · exact live_ne_INV w.size_le htg
+          · exact hx
+
+theorem relocateNamed_mi (d : Bytes) (fuel : Nat) {s : PState} (h : MI d s) {obj : Nat} (ho : live s.tree obj = true)
+    (hp : C13.P s.tree obj ≠ INV) (hfi : Fi s.tree obj ≠ INV) (hnsb : (slot s.tree obj).opcode ≠ opIntScopeBlock)
+    (hnamed : ∃ fl, opFlags (slot s.tree obj).infoIndex = some fl ∧ hasFlag fl flagNamed = true) :
+    NPs (relocateNamed d fuel obj) s (fun _ s' => MI d s' ∧ Mv s s' ∧ KeepAtt s s') := by
+  unfold relocateNamed
+  refine NPs.step (getObj_live ho) ?_
+  have hfl : live s.tree (Fi s.tree obj) = true := by
+    rcases (h.tp.wf.lP ho).lfi with h1 | h1
+    · exact absurd h1 hfi
+    · exact h1
+  refine NPs.step (objectAt_live' hfl) ?_
+  refine NPs.step (derefP_some_ex _) ?_
+  refine NPs.step (getObj_live hfl) ?_
+  split
+  · exact NPs.pure ⟨h, Mv.refl s, KeepAtt.refl s⟩
+  · split
+    · exact relocateOne_mi d fuel h ho hp hfi hnsb hnamed _ _ _
+    · exact NPs.pure ⟨h, Mv.refl s, KeepAtt.refl s⟩
+
+/-- `relocateNamedObjects` and its loop over the children, by induction on the fuel -/
+theorem relocate_mi (d : Bytes) : ∀ (f : Nat),
+    (∀ {s : PState} (objIndex : Nat), MI d s → live s.tree objIndex = true →
+      (C13.P s.tree objIndex ≠ INV ∨ (slot s.tree objIndex).opcode = opIntScopeBlock) →
+      NPs (relocateNamedObjects d f objIndex) s (fun _ s' => MI d s' ∧ Mv s s' ∧ KeepAtt s s')) ∧
+    (∀ {s : PState} (sib : Nat) (res : PRes), MI d s → (sib = INV ∨ (live s.tree sib = true ∧ C13.P s.tree sib ≠ INV)) →
+      NPs (relocateLoop d f sib res) s (fun _ s' => MI d s' ∧ Mv s s' ∧ KeepAtt s s')) := by
+  intro f
+  induction f with
+  | zero =>
+    constructor
+    · intro s _ _ _ _; unfold relocateNamedObjects; exact NPs.fuel
+    · intro s _ _ _ _; unfold relocateLoop; exact NPs.fuel
+  | succ f ih =>
+    constructor
+    · intro s objIndex h ho hroot
+      unfold relocateNamedObjects
+      refine NPs.step (objectAt_live' ho) ?_
+      refine NPs.step (derefP_some_ex _) ?_
+      refine NPs.step (getObj_live ho) ?_
+      obtain ⟨fl, hfl⟩ := opFlags_of_info (h.tp.info objIndex ho)
+      rw [hfl]
+      refine NPs.step (optP_ex fl s) ?_
+      -- the counter reset does not touch the tree
+      have cont : ∀ s0 : PState, s0.tree = s.tree → s0.tableHandle = s.tableHandle →
+          NPs (if hasFlag fl flagExecutable = true then pure PRes.ok
+            else do
+              let __do_lift ← tableHandle
+              if hasFlag fl flagNamed = true ∧ (slot s.tree objIndex).firstArgIndex ≠ invalidIndex ∧
+                    (slot s.tree objIndex).tableHandle = __do_lift ∧ (slot s.tree objIndex).opcode ≠ opIntScopeBlock then do
+                  let __do_lift ← relocateNamed d f objIndex
+                  match __do_lift with
+                    | Sum.inl res => pure res
+                    | Sum.inr val => do
+                      let __do_lift ← getObj objIndex
+                      relocateLoop d f __do_lift.firstArgIndex PRes.ok
+                else relocateLoop d f (slot s.tree objIndex).firstArgIndex PRes.ok) s0
+            (fun _ s' => MI d s' ∧ Mv s s' ∧ KeepAtt s s') := by
+        intro s0 ht0 hh0
+        have h0 : MI d s0 := ⟨⟨by rw [ht0]; exact h.tp.wf, by rw [ht0]; exact h.tp.root, by rw [ht0]; exact h.tp.info⟩,
+          by rw [ht0]; exact h.rootP, by rw [ht0]; exact h.rootOp,
+          fun x hx => by rw [ht0]; exact h.shape x ⟨by rw [← ht0]; exact hx.1, by rw [← ht0]; exact hx.2.1,
+            by rw [← ht0, ← hh0]; exact hx.2.2.1, by rw [← ht0]; exact hx.2.2.2⟩⟩
+        have m0 : Mv s s0 := ⟨by rw [ht0], fun x => by rw [ht0], hh0⟩
+        have k0 : KeepAtt s s0 := fun x hx => by rw [ht0]; exact hx
+        have ho0 : live s0.tree objIndex = true := by rw [ht0]; exact ho
+        have kids : ∀ {s1 : PState}, MI d s1 → live s1.tree objIndex = true →
+            (Fi s1.tree objIndex = INV ∨ (live s1.tree (Fi s1.tree objIndex) = true ∧ C13.P s1.tree (Fi s1.tree objIndex) ≠ INV)) := by
+          intro s1 h1 ho1
+          by_cases hf : Fi s1.tree objIndex = INV
+          · exact Or.inl hf
+          · right
+            have l1 := h1.tp.wf.lP ho1
+            refine ⟨?_, ?_⟩
+            · rcases l1.lfi with h2 | h2
+              · exact absurd h2 hf
+              · exact h2
+            · rw [(l1.fi hf).1]; exact live_ne_INV h1.tp.wf.size_le ho1
+        split
+        · exact NPs.pure ⟨h0, m0, k0⟩
+        · refine NPs.step (tableHandle_ex s0) ?_
+          split
+          · rename_i hc
+            have hp : C13.P s0.tree objIndex ≠ INV := by
+              rw [ht0]
+              rcases hroot with h1 | h1
+              · exact h1
+              · exact absurd h1 hc.2.2.2
+            have hfi : Fi s0.tree objIndex ≠ INV := by rw [ht0]; exact hc.2.1
+            refine NPs.bind (relocateNamed_mi d f h0 ho0 hp hfi (by rw [ht0]; exact hc.2.2.2) ⟨fl, by rw [ht0]; exact hfl, hc.1⟩) ?_
+            intro r s1 hq
+            obtain ⟨h1, m1, k1⟩ := hq
+            cases r with
+            | inl res => exact NPs.pure ⟨h1, m0.trans m1, k0.trans k1⟩
+            | inr _ =>
+              have ho1 : live s1.tree objIndex = true := by rw [m1.live]; exact ho0
+              refine NPs.step (getObj_live ho1) ?_
+              exact (ih.2 _ PRes.ok h1 (kids h1 ho1)).mono
+                (fun a s' hq => ⟨hq.1, (m0.trans m1).trans hq.2.1, (k0.trans k1).trans hq.2.2⟩)
+          · have := kids h0 ho0
+            rw [ht0] at this
+            exact (ih.2 _ PRes.ok h0 (by rw [ht0]; exact this)).mono
+              (fun a s' hq => ⟨hq.1, m0.trans hq.2.1, k0.trans hq.2.2⟩)
+      dsimp only
+      by_cases h00 : objIndex = 0
+      · rw [if_pos h00]
+        refine NPs.step (s1 := { s with relocatedObjects := 0 }) (a := ()) rfl ?_
+        exact cont _ rfl rfl
+      · rw [if_neg h00]
+        exact cont s rfl rfl
+    · intro s sib res h hsib
+      unfold relocateLoop
+      by_cases h0 : sib = invalidIndex
+      · rw [if_pos h0]; exact NPs.pure ⟨h, Mv.refl s, KeepAtt.refl s⟩
+      · rw [if_neg h0]
+        obtain ⟨hl, hp⟩ : live s.tree sib = true ∧ C13.P s.tree sib ≠ INV := by
+          rcases hsib with h1 | h1
+          · exact absurd h1 h0
+          · exact h1
+        refine NPs.step (objectAt_live' hl) ?_
+        refine NPs.step (derefP_some_ex _) ?_
+        refine NPs.step (getObj_live hl) ?_
+        rw [h.tp.wf.index_eq sib (live_lt hl)]
+        refine NPs.bind (ih.1 sib h hl (Or.inl hp)) ?_
+        intro r s1 hq
+        obtain ⟨h1, m1, k1⟩ := hq
+        -- the sibling saved before the call is still a live attached object
+        have hnext : Nx s.tree sib = INV ∨ (live s1.tree (Nx s.tree sib) = true ∧ C13.P s1.tree (Nx s.tree sib) ≠ INV) := by
+          by_cases hn : Nx s.tree sib = INV
+          · exact Or.inl hn
+          · right
+            have l := h.tp.wf.lP hl
+            refine ⟨?_, ?_⟩
+            · rw [m1.live]
+              rcases l.lnx with h2 | h2
+              · exact absurd h2 hn
+              · exact h2
+            · apply k1
+              rw [(l.nx hn).2]; exact hp
+        have loop : ∀ res', NPs (relocateLoop d f (slot s.tree sib).nextSiblingIndex res') s1
+            (fun _ s' => MI d s' ∧ Mv s s' ∧ KeepAtt s s') := by
+          intro res'
+          exact (ih.2 _ res' h1 hnext).mono (fun a s' hq => ⟨hq.1, m1.trans hq.2.1, k1.trans hq.2.2⟩)
+        cases r with
+        | failed => exact NPs.pure ⟨h1, m1, k1⟩
+        | requireExtraPass => exact loop _
+        | ok => exact loop _
+        | shortCircuit => exact loop _
+
+
+/-! ## the resolve loop -/
+
+/-- a change of the counters keeps the merge invariant -/
+theorem MI.ofTree {d : Bytes} {s s' : PState} (h : MI d s) (ht : s'.tree = s.tree) (hh : s'.tableHandle = s.tableHandle) :
+    MI d s' :=
+  ⟨⟨by rw [ht]; exact h.tp.wf, by rw [ht]; exact h.tp.root, by rw [ht]; exact h.tp.info⟩,
+   by rw [ht]; exact h.rootP, by rw [ht]; exact h.rootOp,
+   fun x hx => by rw [ht]; exact h.shape x ⟨by rw [← ht]; exact hx.1, by rw [← ht]; exact hx.2.1,
+     by rw [← ht, ← hh]; exact hx.2.2.1, by rw [← ht]; exact hx.2.2.2⟩⟩
+
+/-- the `for ; ; p.resolvePasses++` loop of `ParseAML`: `mergeScopeDirectives` and `relocateNamedObjects` in turn -/
+theorem resolveLoopPasses_np (d : Bytes) (fuel : Nat) : ∀ (n : Nat) {s : PState}, MI d s →
+    NPs (resolveLoopPasses d fuel n) s (fun _ s' => MI d s' ∧ Shr s s') := by
+  intro n
+  induction n with
+  | zero => intro s _; unfold resolveLoopPasses; exact NPs.fuel
+  | succ n ih =>
+    intro s h
+    unfold resolveLoopPasses
+    have hm := (merge_np d fuel).1 (s0 := s) (X0 := 0) (Mvd := fun _ => False) 0 h.tp.wf h (Ctx.refl s 0) h.tp.root
+      (h.tp.wf.anc_self h.tp.root)
+    refine NPs.bind hm ?_
+    intro mres s1 hq
+    obtain ⟨h1, _, _, _, ctx1⟩ := hq
+    have sh1 : Shr s s1 := ctx1.shr
+    split
+    · exact NPs.pure ⟨h1, sh1⟩
+    · refine NPs.bind ((relocate_mi d fuel).1 0 h1 h1.tp.root (Or.inr h1.rootOp)) ?_
+      intro rres s2 hq2
+      obtain ⟨h2, m2, _⟩ := hq2
+      have sh2 : Shr s s2 := sh1.trans (Shr.ofMv m2)
+      split
+      · exact NPs.pure ⟨h2, sh2⟩
+      · split
+        · exact NPs.pure ⟨h2, sh2⟩
+        · refine NPs.step (s1 := { s2 with resolvePasses := u32 (s2.resolvePasses + 1) }) (a := ()) rfl ?_
+          have := ih (s := { s2 with resolvePasses := u32 (s2.resolvePasses + 1) }) (h2.ofTree rfl rfl)
+          exact this.mono (fun _ s' hq' => ⟨hq'.1, sh2.trans ⟨hq'.2.size, hq'.2.live, hq'.2.handle⟩⟩)
+
+/-! ## `connectNamedObjArgs` keeps the merge invariant -/
+
+/-- an object whose table row is a named one is not a `Scope` directive -/
+theorem named_not_dir {d : Bytes} {s : PState} (h : MI d s) {y : Nat}
+    (hn : ∃ fl, opFlags (slot s.tree y).infoIndex = some fl ∧ hasFlag fl flagNamed = true) : ¬ IsDir s y := by
+  intro hd
+  obtain ⟨fl, hfl, hnm⟩ := hn
+  have := scope_row_not_named fl (by rw [← (h.shape y hd).info]; exact hfl)
+  rw [hnm] at this; cases this
+
+/-- moving an object that is not an argument of a directive under an object that is neither a directive nor
+childless keeps the merge invariant -/
+theorem MI.reloc' {d : Bytes} {s s2 : PState} (h : MI d s) (h2 : TP s2) (m2 : Mv s s2) (sp : SamePay s.tree s2.tree)
+    {T m : Nat} (hT : live s.tree T = true) (hTd : ¬ IsDir s T) (hTf : Fi s.tree T ≠ INV)
+    (hm : live s.tree m = true) (hpl : live s.tree (C13.P s.tree m) = true)
+    (hnd : ∀ x, IsDir s x → C13.P s.tree m ≠ x)
+    (hP : ∀ x, C13.P s2.tree x = if x = m then T else C13.P s.tree x)
+    (hFL : ∀ x, x ≠ C13.P s.tree m → x ≠ T → Fi s2.tree x = Fi s.tree x ∧ La s2.tree x = La s.tree x)
+    (hNx : ∀ x, x ≠ m → C13.P s.tree x ≠ C13.P s.tree m → C13.P s.tree x ≠ T → Nx s2.tree x = Nx s.tree x) : MI d s2 := by
+  have w := h.tp.wf
+  have hinv : ∀ j, live s.tree j = true → j ≠ INV := fun j hj => live_ne_INV w.size_le hj
+  refine ⟨h2, ?_, by rw [pay_opcode (sp.pay 0)]; exact h.rootOp, ?_⟩
+  · rw [hP, if_neg]
+    · exact h.rootP
+    · intro e
+      have := hinv _ hpl
+      rw [← e, h.rootP] at this
+      exact this rfl
+  · intro x hx
+    obtain ⟨hxl, hxop, hxh, hxf⟩ := hx
+    have hxl' : live s.tree x = true := by rw [← m2.live]; exact hxl
+    have hxop' : (slot s.tree x).opcode = opScope := by rw [← pay_opcode (sp.pay x)]; exact hxop
+    have hxh' : (slot s.tree x).tableHandle = s.tableHandle := by rw [← pay_handle (sp.pay x), hxh, m2.handle]
+    have hxT : x ≠ T := by
+      intro e
+      exact hTd ⟨hT, by rw [← e]; exact hxop', by rw [← e]; exact hxh', hTf⟩
+    have hxp : x ≠ C13.P s.tree m := by
+      intro e
+      by_cases hf : Fi s.tree x = INV
+      · exact fi_ne_of_child w hxl' hm e.symm hf
+      · exact hnd x ⟨hxl', hxop', hxh', hf⟩ e.symm
+    obtain ⟨hfx, hlx⟩ := hFL x hxp hxT
+    have hdir : IsDir s x := ⟨hxl', hxop', hxh', by rw [← hfx]; exact hxf⟩
+    have sh := h.shape x hdir
+    have lx := w.lP hxl'
+    have hnp : C13.P s.tree (Fi s.tree x) = x := (lx.fi hdir.2.2.2).1
+    have hnl : live s.tree (Fi s.tree x) = true := by
+      rcases lx.lfi with h0 | h0
+      · exact absurd h0 hdir.2.2.2
+      · exact h0
+    have hnT : Fi s.tree x ≠ T := fun e => hTf (by rw [← e]; exact sh.nkids)
+    have hnpar : Fi s.tree x ≠ C13.P s.tree m := fun e => fi_ne_of_child w hnl hm e.symm sh.nkids
+    have hnm : Fi s.tree x ≠ m := fun e => hxp (by rw [← hnp, e])
+    refine sh.transfer (sp.pay x) hfx hlx (sp.pay _) (hFL _ hnpar hnT).1 ?_ (sp.pay _)
+    exact hNx _ hnm (by rw [hnp]; exact hxp) (by rw [hnp]; exact hxT)
+
+/-- `attachSiblingsAsArgs` without parent siblings, on a named non-scope-block object with arguments -/
+theorem attach_mi {d : Bytes} (parentObj targetObj : Nat) :
+    ∀ (n sib0 : Nat) {s : PState}, MI d s → live s.tree targetObj = true →
+      (∃ fl, opFlags (slot s.tree targetObj).infoIndex = some fl ∧ hasFlag fl flagNamed = true) →
+      (slot s.tree targetObj).opcode ≠ opIntScopeBlock → Fi s.tree targetObj ≠ INV → sib0 = Nx s.tree targetObj →
+      NPs (attachSiblingsAsArgs parentObj targetObj false n sib0) s (fun _ s' => MI d s' ∧ Mv s s') := by
+  intro n
+  induction n with
+  | zero =>
+    intro sib0 s h _ _ _ _ _
+    unfold attachSiblingsAsArgs
+    exact NPs.pure ⟨h, Mv.refl s⟩
+  | succ n ih =>
+    intro sib0 s h ht hnamed hnsb hfi hsib
+    have w := h.tp.wf
+    have hinv : ∀ j, live s.tree j = true → j ≠ INV := fun j hj => live_ne_INV w.size_le hj
+    unfold attachSiblingsAsArgs
+    dsimp only
+    rw [if_neg (fun hc => by cases hc.2)]
+    refine NPs.step (a := sib0) (s1 := s) rfl ?_
+    by_cases hS0 : sib0 = invalidIndex
+    · rw [if_pos hS0]
+      exact NPs.pure ⟨h, Mv.refl s⟩
+    · rw [if_neg hS0]
+      have lt := w.lP ht
+      have hnx : Nx s.tree targetObj ≠ INV := by rw [← hsib]; exact hS0
+      have hSl : live s.tree sib0 = true := by
+        rcases lt.lnx with h1 | h1
+        · exact absurd h1 hnx
+        · rw [hsib]; exact h1
+      obtain ⟨hpv, hpp⟩ := lt.nx hnx
+      rw [← hsib] at hpv hpp
+      have hpt : C13.P s.tree targetObj ≠ INV := fun e => hnx (lt.det e).2
+      have hpl : live s.tree (C13.P s.tree sib0) = true := by
+        rw [hpp]
+        rcases lt.lp with h1 | h1
+        · exact absurd h1 hpt
+        · exact h1
+      have hne : targetObj ≠ sib0 := by rw [hsib]; exact fun e => wf_Nx_ne_self w ht e.symm
+      have hanc : C13.isAncestorOrSelf s.tree sib0 s.tree.fuel targetObj = false := by
+        cases hq : C13.isAncestorOrSelf s.tree sib0 s.tree.fuel targetObj with
+        | false => rfl
+        | true =>
+          exfalso
+          obtain ⟨f', _, _, h2⟩ := isAnc_step hq hne
+          rw [← hpp] at h2
+          exact anc_parent_absurd w hSl rfl hpl h2
+      refine NPs.step (objectAt_live' hSl) ?_
+      refine NPs.step (derefP_some_ex _) ?_
+      refine NPs.step (getObj_live hSl) ?_
+      refine NPs.step (objectAt_live' hpl) ?_
+      refine NPs.step (derefP_some_ex _) ?_
+      obtain ⟨s1, s2, e1, e2, h2, m2, hs2, sp2, hP2, hFL2, hNx2, _⟩ := move_any h.tp ht hSl hpl hanc
+      refine NPs.step e1 ?_
+      refine NPs.step e2 ?_
+      -- the common parent is not a directive: `targetObj` has arguments and is not a scope block
+      have hnd : ∀ x, IsDir s x → C13.P s.tree sib0 ≠ x := by
+        intro x hx e
+        have shx := h.shape x hx
+        rcases dir_kids w hx.1 hx.2.2.2 shx ht (by rw [← hpp]; exact e) with e' | e'
+        · exact hfi (by rw [e']; exact shx.nkids)
+        · exact hnsb (by rw [e']; exact shx.cop)
+      have hi2 : MI d s2 := h.reloc' h2 m2 sp2 ht (named_not_dir h hnamed) hfi hSl hpl hnd hP2 hFL2 hNx2
+      have ht2 : live s2.tree targetObj = true := by rw [m2.live]; exact ht
+      have hS2 : live s2.tree sib0 = true := by rw [m2.live]; exact hSl
+      have hfi2 : Fi s2.tree targetObj ≠ INV := fi_ne_of_child h2.wf ht2 hS2 (by rw [hP2, if_pos rfl])
+      -- what follows `targetObj` now
+      have hnxt : Nx s.tree sib0 = Nx s2.tree targetObj := by
+        -- via the link effects of `move_step` (same operations, same results)
+        obtain ⟨s1', s2', e1', e2', _, _, _, _, _, hNx2'⟩ := move_step h.tp ht hSl rfl hpl
+          (by rw [hpp]; exact fun e => wf_P_ne_self w ht e.symm) hanc
+        have hs1 : s1' = s1 := by rw [e1] at e1'; cases e1'; rfl
+        subst hs1
+        have hs2' : s2' = s2 := by rw [e2] at e2'; cases e2'; rfl
+        subst hs2'
+        rw [hNx2', if_neg hne]
+        have hlat : La s.tree targetObj ≠ targetObj := by
+          intro e
+          have := (lt.la (by rw [e]; exact hinv _ ht)).1
+          rw [e] at this
+          exact wf_P_ne_self w ht this
+        rw [if_neg (fun hc => hlat hc.1.symm), if_pos ⟨hpv.symm, by rw [hpv]; exact hinv _ ht⟩]
+      have := ih (Nx s.tree sib0) hi2 ht2
+        (by obtain ⟨fl, hfl, hnm⟩ := hnamed; exact ⟨fl, by rw [pay_info (sp2.pay targetObj)]; exact hfl, hnm⟩)
+        (by rw [pay_opcode (sp2.pay targetObj)]; exact hnsb) hfi2 hnxt
+      exact this.mono (fun _ s' hq => ⟨hq.1, m2.trans hq.2⟩)
+
+/-- a payload update of a slot that is neither a directive nor the name object of one keeps the merge invariant
+(the name may change) -/
+theorem MI.upd' {d : Bytes} {s s1 : PState} (h : MI d s) (h1 : TP s1) (m1 : Mv s s1) (sl : SameLinks s.tree s1.tree) {i : Nat}
+    (hoth : ∀ x, x ≠ i → slot s1.tree x = slot s.tree x)
+    (hpay : (slot s1.tree i).opcode = (slot s.tree i).opcode ∧ (slot s1.tree i).tableHandle = (slot s.tree i).tableHandle)
+    (hnd : ¬ IsDir s i) (hni : ∀ x, IsDir s x → Fi s.tree x ≠ i) : MI d s1 := by
+  refine ⟨h1, by rw [sl.p]; exact h.rootP, ?_, ?_⟩
+  · by_cases h0 : (0 : Nat) = i
+    · rw [h0, hpay.1, ← h0]; exact h.rootOp
+    · rw [hoth 0 h0]; exact h.rootOp
+  · intro x hx
+    obtain ⟨hxl, hxop, hxh, hxf⟩ := hx
+    have hop : ∀ y, (slot s1.tree y).opcode = (slot s.tree y).opcode := by
+      intro y; by_cases hy : y = i
+      · rw [hy]; exact hpay.1
+      · rw [hoth y hy]
+    have hdir : IsDir s x := ⟨by rw [← sl.live]; exact hxl, by rw [← hop]; exact hxop, by
+      by_cases hy : x = i
+      · rw [← m1.handle, ← hxh, hy, hpay.2]
+      · rw [← m1.handle, ← hxh, hoth x hy], by rw [← sl.fi]; exact hxf⟩
+    have hxi : x ≠ i := fun e => hnd (by rw [← e]; exact hdir)
+    have sh := h.shape x hdir
+    have hn := hni x hdir
+    refine ⟨by rw [hoth x hxi]; exact sh.name0, by rw [hoth x hxi]; exact sh.info, by rw [sl.fi, sl.fi]; exact sh.nkids,
+      by rw [sl.fi, sl.nx, sl.la]; exact sh.two, by rw [sl.la, hop]; exact sh.cop, by rw [sl.fi, hop]; exact sh.nop, ?_⟩
+    obtain ⟨off, len, hv, he⟩ := sh.val
+    exact ⟨off, len, by rw [sl.fi, hoth _ hn]; exact hv, he⟩
+
+/-- one iteration of the `connectNamedObjArgs` loop keeps the merge invariant -/
+theorem connectNamedStep_mi (d : Bytes) {s : PState} (h : MI d s) {obj argObj : Nat} (ho : live s.tree obj = true)
+    (ha : live s.tree argObj = true) :
+    NPs (connectNamedStep d obj argObj) s (fun _ s' => MI d s' ∧ Mv s s') := by
+  have htp := h.tp
+  unfold connectNamedStep
+  refine NPs.step (getObj_live ha) ?_
+  have hinfo := htp.info argObj ha
+  obtain ⟨fl, hfl⟩ := opFlags_of_info hinfo
+  rw [hfl]
+  refine NPs.step (optP_ex fl s) ?_
+  refine NPs.step (tableHandle_ex s) ?_
+  split
+  · exact NPs.pure ⟨h, Mv.refl s⟩
+  · rename_i hc
+    have hnm : hasFlag fl flagNamed = true := by
+      by_cases hq : hasFlag fl flagNamed = true
+      · exact hq
+      · exfalso; apply hc; left; simp [hq]
+    have hfi : Fi s.tree argObj ≠ INV := by
+      intro e; apply hc; right; right; left; exact e
+    have hnsb : (slot s.tree argObj).opcode ≠ opIntScopeBlock := by
+      intro e; apply hc; right; right; right; exact e
+    have hfl' : live s.tree (Fi s.tree argObj) = true := by
+      rcases (htp.wf.lP ha).lfi with h1 | h1
+      · exact absurd h1 hfi
+      · exact h1
+    refine NPs.step (objectAt_live' hfl') ?_
+    refine NPs.step (derefP_some_ex _) ?_
+    refine NPs.step (getObj_live hfl') ?_
+    split
+    · exact NPs.pure ⟨h, Mv.refl s⟩
+    · rename_i nb _
+      split
+      · exact NPs.pure ⟨h, Mv.refl s⟩
+      · have hfv : ∃ fv : Obj → Obj, fv = fun o => { o with name := Name.ofList (nb.2.2.drop (nb.2.1 - Gen.C12.amlNameLen)) } :=
+          ⟨_, rfl⟩
+        obtain ⟨fv, hfvd⟩ := hfv
+        rw [← hfvd]
+        have hkl : KeepsLinks fv := by rw [hfvd]; keeps_links
+        have hklv : KeepsLive s.tree argObj fv := by rw [hfvd]; exact Iff.rfl
+        obtain ⟨s1, e1, h1, m1, sl1⟩ := updObj_tp htp ha fv hkl hklv (by rw [hfvd]; exact hinfo)
+        refine NPs.step e1 ?_
+        have hlt := live_lt ha
+        have hs1 : s1 = { s with tree := setAt s.tree argObj fv } := by
+          have := updObj_ex (s := s) fv hlt
+          rw [this] at e1; cases e1; rfl
+        have hoth1 : ∀ x, x ≠ argObj → slot s1.tree x = slot s.tree x := by
+          intro x hx
+          rw [hs1]; show slot (setAt s.tree _ _) x = _
+          rw [slot_setAt', if_neg (fun hc => hx hc.1.symm)]
+        have hself1 : slot s1.tree argObj = fv (slot s.tree argObj) := by
+          rw [hs1]; show slot (setAt s.tree _ _) _ = _
+          rw [slot_setAt', if_pos ⟨rfl, hlt⟩]
+        have hnamed : ∃ fl, opFlags (slot s.tree argObj).infoIndex = some fl ∧ hasFlag fl flagNamed = true := ⟨fl, hfl, hnm⟩
+        have hi1 : MI d s1 := h.upd' h1 m1 sl1 hoth1 (by rw [hself1, hfvd]; exact ⟨rfl, rfl⟩) (named_not_dir h hnamed)
+          (fun x hx e => hfi (by rw [← e]; exact (h.shape x hx).nkids))
+        rw [opArgCount_of_info hinfo]
+        refine NPs.step (optP_ex _ s1) ?_
+        refine NPs.bind (firstTermArg_np _ hinfo _ _ _ s1) ?_
+        intro ti s2 hs2
+        subst hs2
+        have ha1 : live s2.tree argObj = true := by rw [m1.live]; exact ha
+        obtain ⟨k, ek⟩ := numArgs_np h1 ha1
+        refine NPs.step ek ?_
+        split
+        · exact NPs.pure ⟨hi1, m1⟩
+        · refine NPs.step (nextOf_live ha1) ?_
+          have hinfo1 : (slot s2.tree argObj).infoIndex = (slot s.tree argObj).infoIndex := by rw [hself1, hfvd]
+          have hop1 : (slot s2.tree argObj).opcode = (slot s.tree argObj).opcode := by rw [hself1, hfvd]
+          have := attach_mi (d := d) obj argObj (argCnt (slot s.tree argObj).infoIndex - ti) (Nx s2.tree argObj) hi1 ha1
+            ⟨fl, by rw [hinfo1]; exact hfl, hnm⟩ (by rw [hop1]; exact hnsb) (by rw [sl1.fi]; exact hfi) rfl
+          refine NPs.bind this ?_
+          intro res s3 hq
+          split
+          · exact NPs.pure ⟨hq.1, m1.trans hq.2⟩
+          · exact NPs.pure ⟨hq.1, m1.trans hq.2⟩
+
+/-- `connectNamedObjArgs` and its argument loop keep the merge invariant -/
+theorem connectNamed_mi (d : Bytes) : ∀ (f : Nat),
+    (∀ {s : PState} (objIndex : Nat), MI d s → live s.tree objIndex = true →
+      NPs (connectNamedObjArgs d f objIndex) s (fun _ s' => MI d s' ∧ Mv s s')) ∧
+    (∀ {s : PState} (obj argIndex : Nat), MI d s → live s.tree obj = true → (argIndex = INV ∨ live s.tree argIndex = true) →
+      NPs (connectNamedLoop d f obj argIndex) s (fun _ s' => MI d s' ∧ Mv s s')) := by
+  intro f
+  induction f with
+  | zero =>
+    constructor
+    · intro s _ _ _; unfold connectNamedObjArgs; exact NPs.fuel
+    · intro s _ _ _ _ _; unfold connectNamedLoop; exact NPs.fuel
+  | succ f ih =>
+    constructor
+    · intro s objIndex h ho
+      unfold connectNamedObjArgs
+      refine NPs.step (objectAt_live' ho) ?_
+      refine NPs.step (derefP_some_ex _) ?_
+      refine NPs.step (getObj_live ho) ?_
+      refine ih.2 objIndex _ h ho ?_
+      rcases (h.tp.wf.lP ho).lla with h1 | h1
+      · exact Or.inl h1
+      · exact Or.inr h1
+    · intro s obj argIndex h ho ha
+      unfold connectNamedLoop
+      by_cases hi : argIndex = invalidIndex
+      · rw [if_pos hi]; exact NPs.pure ⟨h, Mv.refl s⟩
+      · rw [if_neg hi]
+        have hal : live s.tree argIndex = true := by
+          rcases ha with h1 | h1
+          · exact absurd h1 hi
+          · exact h1
+        refine NPs.step (objectAt_live' hal) ?_
+        refine NPs.step (derefP_some_ex _) ?_
+        refine NPs.step (getObj_live hal) ?_
+        rw [h.tp.wf.index_eq argIndex (live_lt hal)]
+        refine NPs.bind (ih.1 argIndex h hal) ?_
+        intro res s1 hq
+        obtain ⟨h1, m1⟩ := hq
+        split
+        · exact NPs.pure ⟨h1, m1⟩
+        · have ho1 : live s1.tree obj = true := by rw [m1.live]; exact ho
+          have ha1 : live s1.tree argIndex = true := by rw [m1.live]; exact hal
+          refine NPs.bind (connectNamedStep_mi d h1 ho1 ha1) ?_
+          intro r s2 hq2
+          obtain ⟨h2, m2⟩ := hq2
+          cases r with
+          | inl res => exact NPs.pure ⟨h2, m1.trans m2⟩
+          | inr _ =>
+            have ha2 : live s2.tree argIndex = true := by rw [m2.live]; exact ha1
+            refine NPs.step (prevOf_live ha2) ?_
+            have := ih.2 obj (Pv s2.tree argIndex) h2 (by rw [m2.live]; exact ho1) (by
+              rcases (h2.tp.wf.lP ha2).lpv with h3 | h3
+              · exact Or.inl h3
+              · exact Or.inr h3)
+            exact this.mono (fun a s' hq3 => ⟨hq3.1, (m1.trans m2).trans hq3.2⟩)
+
+/-- the tree passes between the first pass and the deferred blocks, as `ParseAML` runs them:
+`connectNamedObjArgs(0)`, then (unless it failed) `resolvePasses = 1` and the resolve loop -/
+def treePasses (d : Bytes) (fuel : Nat) : P Bool := do
+  if (← connectNamedObjArgs d fuel 0) ≠ .ok then pure false
+  else do
+    modify fun s => { s with resolvePasses := 1 }
+    resolveLoopPasses d fuel fuel
+
+theorem treePasses_np (d : Bytes) (fuel : Nat) {s : PState} (h : MI d s) :
+    NPs (treePasses d fuel) s (fun _ s' => MI d s' ∧ Shr s s') := by
+  unfold treePasses
+  refine NPs.bind ((connectNamed_mi d fuel).1 0 h h.tp.root) ?_
+  intro r s1 hq
+  obtain ⟨h1, m1⟩ := hq
+  split
+  · exact NPs.pure ⟨h1, Shr.ofMv m1⟩
+  · refine NPs.step (s1 := { s1 with resolvePasses := 1 }) (a := ()) rfl ?_
+    have := resolveLoopPasses_np d fuel fuel (s := { s1 with resolvePasses := 1 }) (h1.ofTree rfl rfl)
+    exact this.mono (fun _ s' hq' => ⟨hq'.1, (Shr.ofMv m1).trans ⟨hq'.2.size, hq'.2.live, hq'.2.handle⟩⟩)
+
+/-! ## the executable checks of `Model/AmlShapes.lean` imply the hypotheses -/
+
+theorem exprOKb_sound {e : List UInt8} (h : exprOKb e = true) : ExprOK e := by
+  intro hl b hb
+  unfold exprOKb at h
+  simp only [hl, bne_self_eq_false, Bool.false_or, hb] at h
+  simpa using h
+
+theorem shapeAtB_sound {d : Bytes} {t : ObjectTree} {x : Nat} (h : shapeAtB d t x = true) : ShapeAt d t x := by
+  unfold shapeAtB at h
+  simp only [Bool.and_eq_true, beq_iff_eq, bne_iff_ne, ne_eq] at h
+  obtain ⟨⟨⟨⟨⟨⟨h1, h2⟩, h3⟩, h4⟩, h5⟩, h6⟩, h7⟩ := h
+  refine ⟨h1, h2, h3, h4, h5, h6, ?_⟩
+  cases hv : (slot t (Fi t x)).value with
+  | bytes off len => rw [hv] at h7; exact ⟨off, len, rfl, exprOKb_sound h7⟩
+  | none => rw [hv] at h7; cases h7
+  | u64 _ => rw [hv] at h7; cases h7
+  | idx _ => rw [hv] at h7; cases h7
+  | field _ _ _ _ _ _ _ _ _ => rw [hv] at h7; cases h7
+
+/-- the oracle's check of `MergeInv` is sound -/
+theorem mergeInvB_sound {d : Bytes} {s : PState} (tp : TP s) (h : mergeInvB d s = true) : MI d s := by
+  unfold mergeInvB at h
+  simp only [Bool.and_eq_true, beq_iff_eq, List.all_eq_true, List.mem_range, Bool.or_eq_true, Bool.not_eq_true'] at h
+  obtain ⟨⟨h1, h2⟩, h3⟩ := h
+  refine ⟨tp, h1, h2, ?_⟩
+  intro x hx
+  obtain ⟨hl, hop, hh, hf⟩ := hx
+  rcases h3 x (live_lt hl) with h4 | h4
+  · exfalso
+    unfold isDirB at h4
+    simp [hl, hop, hh, hf] at h4
+  · exact shapeAtB_sound h4
+
+/-- the oracle's check of `CallShape` is sound -/
+theorem callShapeB_sound {s : PState} (h : callShapeB s = true) : CallShape s := by
+  unfold callShapeB at h
+  simp only [List.all_eq_true, List.mem_range, Bool.or_eq_true, Bool.not_eq_true', Bool.and_eq_false_imp] at h
+  intro x hx hop
+  rcases h x (live_lt hx) with h1 | h1
+  · exfalso
+    have := h1 hx
+    simp [hop] at this
+  · cases hv : (slot s.tree x).value with
+    | bytes off len => exact ⟨off, len, rfl⟩
+    | none => rw [hv] at h1; cases h1
+    | u64 _ => rw [hv] at h1; cases h1
+    | idx _ => rw [hv] at h1; cases h1
+    | field _ _ _ _ _ _ _ _ _ => rw [hv] at h1; cases h1
 
 end Firefly.AmlParser
